@@ -5806,3 +5806,1624 @@ let hq_rank_prefetch_pfs bsize t pfs symbol i =
             bind (hq_rank_prefetch_unchecked bsize t symbol i) (fun v -> Val
               (Some v)))
         | None -> Val None)
+
+type abi = { sz_rsq : n; sz_rsw : n; sz_rsn : n; sz_pfs : n; sz_code : 
+             n; sz_vec : n }
+
+(** val abi64 : abi **)
+
+let abi64 =
+  { sz_rsq = (Npos (XO (XO (XO (XO (XI (XO (XO XH)))))))); sz_rsw = (Npos (XO
+    (XO (XO (XI (XI (XO XH))))))); sz_rsn = (Npos (XO (XO (XO (XO (XI (XO
+    XH))))))); sz_pfs = (Npos (XO (XO (XO (XO (XO XH)))))); sz_code = (Npos
+    (XO (XO (XO XH)))); sz_vec = (Npos (XO (XO (XO (XI XH))))) }
+
+(** val sum_lens : 'a1 list list -> n **)
+
+let sum_lens ls =
+  sumN (map len ls)
+
+(** val qv_heap : qvec -> n **)
+
+let qv_heap q =
+  N.mul (Npos (XO (XO (XO (XO (XO (XO XH))))))) (len q.qv_data)
+
+(** val rss_heap : rssupport -> n **)
+
+let rss_heap r =
+  N.add
+    (N.mul (Npos (XO (XO (XO (XO (XO (XO XH))))))) (len r.rs_superblocks))
+    (N.mul (Npos (XO (XO XH))) (sum_lens r.rs_samples))
+
+(** val rsq_heap : rsq -> n **)
+
+let rsq_heap r =
+  N.add (qv_heap r.rsq_qv) (rss_heap r.rsq_rs)
+
+(** val bv_heap : bitvec -> n **)
+
+let bv_heap b =
+  N.mul (Npos (XO (XO (XO XH)))) (len b.bv_words)
+
+(** val rsn_heap : rsnarrow -> n **)
+
+let rsn_heap r =
+  N.add
+    (N.add (bv_heap r.rsn_bv)
+      (N.mul (Npos (XO (XO (XO XH)))) (len r.rsn_pairs)))
+    (N.mul (Npos (XO (XO (XO XH))))
+      (N.add (len r.rsn_samples0) (len r.rsn_samples1)))
+
+(** val rsw_heap : rswide -> n **)
+
+let rsw_heap r =
+  N.add
+    (N.add (bv_heap r.rsw_bv)
+      (N.mul (Npos (XO (XO (XO (XO XH))))) (len r.rsw_meta)))
+    (N.mul (Npos (XO (XO (XO XH))))
+      (N.add (len r.rsw_samples0) (len r.rsw_samples1)))
+
+(** val inv_heap : inventories -> n **)
+
+let inv_heap i =
+  N.add
+    (N.add (N.mul (Npos (XO (XO (XO XH)))) (len i.inv_block))
+      (N.mul (Npos (XO XH)) (len i.inv_sub)))
+    (N.mul (Npos (XO (XO (XO XH)))) (len i.inv_overflow))
+
+(** val da_heap : darray -> n **)
+
+let da_heap d =
+  N.add (N.add (bv_heap d.da_bv) (inv_heap d.da_ones))
+    (match d.da_zeros with
+     | Some z0 -> inv_heap z0
+     | None -> N0)
+
+(** val pfs_heap : abi -> pfsupport -> n **)
+
+let pfs_heap a p =
+  N.add (N.mul a.sz_rsn (len p.pf_samples)) (sumN (map rsn_heap p.pf_samples))
+
+(** val qwt_heap : abi -> qwt -> pfsupport list option -> n **)
+
+let qwt_heap a t pfs =
+  N.add (N.add (N.mul a.sz_rsq (len t.q_qvs)) (sumN (map rsq_heap t.q_qvs)))
+    (match pfs with
+     | Some ps -> N.add (N.mul a.sz_pfs (len ps)) (sumN (map (pfs_heap a) ps))
+     | None -> N0)
+
+(** val wt_heap_plain : abi -> bwt -> n **)
+
+let wt_heap_plain a t =
+  N.add (N.add (N.mul a.sz_rsw (len t.w_bvs)) (sumN (map rsw_heap t.w_bvs)))
+    (N.mul (Npos (XO (XO (XO XH)))) (len t.w_lens))
+
+(** val qv_space : qvec -> n **)
+
+let qv_space q =
+  N.add
+    (N.add (Npos (XO (XO (XO (XO XH)))))
+      (N.mul (Npos (XO (XO (XO (XO (XO (XO XH))))))) (len q.qv_data))) (Npos
+    (XO (XO (XO XH))))
+
+(** val rss_space : rssupport -> n **)
+
+let rss_space r =
+  N.add
+    (sumN
+      (map (fun s ->
+        N.add (Npos (XO (XO (XO (XO XH)))))
+          (N.mul (Npos (XO (XO XH))) (len s))) r.rs_samples))
+    (N.add (Npos (XO (XO (XO (XO XH)))))
+      (N.mul (Npos (XO (XO (XO (XO (XO (XO XH))))))) (len r.rs_superblocks)))
+
+(** val rsq_space : rsq -> n **)
+
+let rsq_space r =
+  N.add (N.add (qv_space r.rsq_qv) (rss_space r.rsq_rs))
+    (N.mul (Npos (XI (XO XH))) (Npos (XO (XO (XO XH)))))
+
+(** val bv_space : bitvec -> n **)
+
+let bv_space b =
+  N.add
+    (N.add
+      (N.add (Npos (XO (XO (XO (XO XH)))))
+        (N.mul (Npos (XO (XO (XO XH)))) (len b.bv_words))) (Npos (XO (XO (XO
+      XH))))) (Npos (XO (XO (XO XH))))
+
+(** val rsn_space : rsnarrow -> n **)
+
+let rsn_space r =
+  N.add
+    (N.add
+      (N.add (bv_space r.rsn_bv)
+        (N.add (Npos (XO (XO (XO (XO XH)))))
+          (N.mul (Npos (XO (XO (XO XH)))) (len r.rsn_pairs))))
+      (N.add (Npos (XO (XO (XO (XO XH)))))
+        (N.mul (Npos (XO (XO (XO XH)))) (len r.rsn_samples0))))
+    (N.add (Npos (XO (XO (XO (XO XH)))))
+      (N.mul (Npos (XO (XO (XO XH)))) (len r.rsn_samples1)))
+
+(** val rsw_space : rswide -> n **)
+
+let rsw_space r =
+  N.add
+    (N.add
+      (N.add (bv_space r.rsw_bv)
+        (N.add (Npos (XO (XO (XO (XO XH)))))
+          (N.mul (Npos (XO (XO (XO (XO XH))))) (len r.rsw_meta))))
+      (N.add (Npos (XO (XO (XO (XO XH)))))
+        (N.mul (Npos (XO (XO (XO XH)))) (len r.rsw_samples0))))
+    (N.add (Npos (XO (XO (XO (XO XH)))))
+      (N.mul (Npos (XO (XO (XO XH)))) (len r.rsw_samples1)))
+
+(** val inv_space : inventories -> n **)
+
+let inv_space i =
+  N.add
+    (N.add
+      (N.add (Npos (XO (XO (XO XH))))
+        (N.add (Npos (XO (XO (XO (XO XH)))))
+          (N.mul (Npos (XO (XO (XO XH)))) (len i.inv_block))))
+      (N.add (Npos (XO (XO (XO (XO XH)))))
+        (N.mul (Npos (XO XH)) (len i.inv_sub))))
+    (N.add (Npos (XO (XO (XO (XO XH)))))
+      (N.mul (Npos (XO (XO (XO XH)))) (len i.inv_overflow)))
+
+(** val da_space : darray -> n **)
+
+let da_space d =
+  N.add (N.add (bv_space d.da_bv) (inv_space d.da_ones))
+    (match d.da_zeros with
+     | Some z0 -> inv_space z0
+     | None -> N0)
+
+(** val pfs_space : pfsupport -> n **)
+
+let pfs_space p =
+  sumN (map rsn_space p.pf_samples)
+
+(** val qwt_space : qwt -> pfsupport list option -> n **)
+
+let qwt_space t pfs =
+  N.add
+    (N.add (N.add (Npos (XO (XO (XO XH)))) (Npos (XO (XO (XO XH)))))
+      (sumN (map rsq_space t.q_qvs)))
+    (match pfs with
+     | Some ps -> sumN (map pfs_space ps)
+     | None -> N0)
+
+(** val hq_space : hqwt -> pfsupport list option -> n **)
+
+let hq_space t pfs =
+  N.add
+    (N.add
+      (N.add
+        (N.add
+          (N.add (N.add (Npos (XO (XO (XO XH)))) (Npos (XO (XO (XO XH)))))
+            (N.mul (Npos (XO (XO (XO (XO (XO (XO (XO (XO XH))))))))) (Npos
+              (XO (XO (XO XH))))))
+          (sumN (map (fun v -> N.mul (len v) (Npos (XI (XO XH)))) t.h_decode)))
+        (N.mul (len t.h_lens) (Npos (XO (XO (XO XH))))))
+      (sumN (map rsq_space t.h_qvs)))
+    (match pfs with
+     | Some ps -> sumN (map pfs_space ps)
+     | None -> N0)
+
+(** val wt_space : bool -> bwt -> n **)
+
+let wt_space compressed t =
+  N.add
+    (N.add
+      (N.add (N.add (Npos (XO (XO (XO XH)))) (Npos (XO (XO (XO XH)))))
+        (if compressed
+         then N.add
+                (N.mul (Npos (XO (XO (XO (XO (XO (XO (XO (XO XH)))))))))
+                  (Npos (XO (XO (XO XH)))))
+                (match t.w_decode with
+                 | Some d -> N.mul (len d) (Npos (XI (XO XH)))
+                 | None -> N0)
+         else N0)) (N.mul (len t.w_lens) (Npos (XO (XO (XO XH))))))
+    (sumN (map rsw_space t.w_bvs))
+
+(** val schema_0 : ty **)
+
+let schema_0 =
+  TTuple ((TU (S (S (S (S (S (S (S (S O))))))))) :: ((TU (S (S (S (S (S (S (S
+    (S O))))))))) :: ((TU (S O)) :: ((TSeq (TTuple ((TTuple ((TSeq (TTuple
+    ((TArr ((S (S (S (S O)))), (TU (S (S (S (S (S (S (S (S (S (S (S (S (S (S
+    (S (S O))))))))))))))))))) :: []))) :: ((TU (S (S (S (S (S (S (S (S
+    O))))))))) :: []))) :: ((TTuple ((TSeq (TTuple ((TArr ((S (S (S (S O)))),
+    (TU (S (S (S (S (S (S (S (S (S (S (S (S (S (S (S (S
+    O))))))))))))))))))) :: []))) :: ((TArr ((S (S (S (S O)))), (TSeq (TU (S
+    (S (S (S O)))))))) :: []))) :: ((TArr ((S (S (S (S (S O))))), (TU (S (S
+    (S (S (S (S (S (S O))))))))))) :: []))))) :: ((TOpt (TSeq (TTuple ((TSeq
+    (TTuple ((TTuple ((TSeq (TTuple ((TArr ((S (S (S (S (S (S (S (S
+    O)))))))), (TU (S (S (S (S (S (S (S (S O))))))))))) :: []))) :: ((TU (S
+    (S (S (S (S (S (S (S O))))))))) :: ((TU (S (S (S (S (S (S (S (S
+    O))))))))) :: [])))) :: ((TSeq (TU (S (S (S (S (S (S (S (S
+    O)))))))))) :: ((TArr ((S (S O)), (TSeq (TU (S (S (S (S (S (S (S (S
+    O)))))))))))) :: []))))) :: ((TU (S (S (S (S (S (S (S (S
+    O))))))))) :: []))))) :: [])))))
+
+(** val schema_1 : ty **)
+
+let schema_1 =
+  TTuple ((TU (S (S (S (S (S (S (S (S O))))))))) :: ((TU (S (S (S (S (S (S (S
+    (S O))))))))) :: ((TU (S (S O))) :: ((TSeq (TTuple ((TTuple ((TSeq
+    (TTuple ((TArr ((S (S (S (S O)))), (TU (S (S (S (S (S (S (S (S (S (S (S
+    (S (S (S (S (S O))))))))))))))))))) :: []))) :: ((TU (S (S (S (S (S (S (S
+    (S O))))))))) :: []))) :: ((TTuple ((TSeq (TTuple ((TArr ((S (S (S (S
+    O)))), (TU (S (S (S (S (S (S (S (S (S (S (S (S (S (S (S (S
+    O))))))))))))))))))) :: []))) :: ((TArr ((S (S (S (S O)))), (TSeq (TU (S
+    (S (S (S O)))))))) :: []))) :: ((TArr ((S (S (S (S (S O))))), (TU (S (S
+    (S (S (S (S (S (S O))))))))))) :: []))))) :: ((TOpt (TSeq (TTuple ((TSeq
+    (TTuple ((TTuple ((TSeq (TTuple ((TArr ((S (S (S (S (S (S (S (S
+    O)))))))), (TU (S (S (S (S (S (S (S (S O))))))))))) :: []))) :: ((TU (S
+    (S (S (S (S (S (S (S O))))))))) :: ((TU (S (S (S (S (S (S (S (S
+    O))))))))) :: [])))) :: ((TSeq (TU (S (S (S (S (S (S (S (S
+    O)))))))))) :: ((TArr ((S (S O)), (TSeq (TU (S (S (S (S (S (S (S (S
+    O)))))))))))) :: []))))) :: ((TU (S (S (S (S (S (S (S (S
+    O))))))))) :: []))))) :: [])))))
+
+(** val schema_2 : ty **)
+
+let schema_2 =
+  TTuple ((TU (S (S (S (S (S (S (S (S O))))))))) :: ((TU (S (S (S (S (S (S (S
+    (S O))))))))) :: ((TU (S (S (S (S O))))) :: ((TSeq (TTuple ((TTuple
+    ((TSeq (TTuple ((TArr ((S (S (S (S O)))), (TU (S (S (S (S (S (S (S (S (S
+    (S (S (S (S (S (S (S O))))))))))))))))))) :: []))) :: ((TU (S (S (S (S (S
+    (S (S (S O))))))))) :: []))) :: ((TTuple ((TSeq (TTuple ((TArr ((S (S (S
+    (S O)))), (TU (S (S (S (S (S (S (S (S (S (S (S (S (S (S (S (S
+    O))))))))))))))))))) :: []))) :: ((TArr ((S (S (S (S O)))), (TSeq (TU (S
+    (S (S (S O)))))))) :: []))) :: ((TArr ((S (S (S (S (S O))))), (TU (S (S
+    (S (S (S (S (S (S O))))))))))) :: []))))) :: ((TOpt (TSeq (TTuple ((TSeq
+    (TTuple ((TTuple ((TSeq (TTuple ((TArr ((S (S (S (S (S (S (S (S
+    O)))))))), (TU (S (S (S (S (S (S (S (S O))))))))))) :: []))) :: ((TU (S
+    (S (S (S (S (S (S (S O))))))))) :: ((TU (S (S (S (S (S (S (S (S
+    O))))))))) :: [])))) :: ((TSeq (TU (S (S (S (S (S (S (S (S
+    O)))))))))) :: ((TArr ((S (S O)), (TSeq (TU (S (S (S (S (S (S (S (S
+    O)))))))))))) :: []))))) :: ((TU (S (S (S (S (S (S (S (S
+    O))))))))) :: []))))) :: [])))))
+
+(** val schema_3 : ty **)
+
+let schema_3 =
+  TTuple ((TU (S (S (S (S (S (S (S (S O))))))))) :: ((TU (S (S (S (S (S (S (S
+    (S O))))))))) :: ((TU (S (S (S (S (S (S (S (S O))))))))) :: ((TSeq
+    (TTuple ((TTuple ((TSeq (TTuple ((TArr ((S (S (S (S O)))), (TU (S (S (S
+    (S (S (S (S (S (S (S (S (S (S (S (S (S
+    O))))))))))))))))))) :: []))) :: ((TU (S (S (S (S (S (S (S (S
+    O))))))))) :: []))) :: ((TTuple ((TSeq (TTuple ((TArr ((S (S (S (S O)))),
+    (TU (S (S (S (S (S (S (S (S (S (S (S (S (S (S (S (S
+    O))))))))))))))))))) :: []))) :: ((TArr ((S (S (S (S O)))), (TSeq (TU (S
+    (S (S (S O)))))))) :: []))) :: ((TArr ((S (S (S (S (S O))))), (TU (S (S
+    (S (S (S (S (S (S O))))))))))) :: []))))) :: ((TOpt (TSeq (TTuple ((TSeq
+    (TTuple ((TTuple ((TSeq (TTuple ((TArr ((S (S (S (S (S (S (S (S
+    O)))))))), (TU (S (S (S (S (S (S (S (S O))))))))))) :: []))) :: ((TU (S
+    (S (S (S (S (S (S (S O))))))))) :: ((TU (S (S (S (S (S (S (S (S
+    O))))))))) :: [])))) :: ((TSeq (TU (S (S (S (S (S (S (S (S
+    O)))))))))) :: ((TArr ((S (S O)), (TSeq (TU (S (S (S (S (S (S (S (S
+    O)))))))))))) :: []))))) :: ((TU (S (S (S (S (S (S (S (S
+    O))))))))) :: []))))) :: [])))))
+
+(** val schema_4 : ty **)
+
+let schema_4 =
+  TTuple ((TU (S (S (S (S (S (S (S (S O))))))))) :: ((TU (S (S (S (S (S (S (S
+    (S O))))))))) :: ((TU (S (S (S (S (S (S (S (S O))))))))) :: ((TSeq
+    (TTuple ((TTuple ((TSeq (TTuple ((TArr ((S (S (S (S O)))), (TU (S (S (S
+    (S (S (S (S (S (S (S (S (S (S (S (S (S
+    O))))))))))))))))))) :: []))) :: ((TU (S (S (S (S (S (S (S (S
+    O))))))))) :: []))) :: ((TTuple ((TSeq (TTuple ((TArr ((S (S (S (S O)))),
+    (TU (S (S (S (S (S (S (S (S (S (S (S (S (S (S (S (S
+    O))))))))))))))))))) :: []))) :: ((TArr ((S (S (S (S O)))), (TSeq (TU (S
+    (S (S (S O)))))))) :: []))) :: ((TArr ((S (S (S (S (S O))))), (TU (S (S
+    (S (S (S (S (S (S O))))))))))) :: []))))) :: ((TOpt (TSeq (TTuple ((TSeq
+    (TTuple ((TTuple ((TSeq (TTuple ((TArr ((S (S (S (S (S (S (S (S
+    O)))))))), (TU (S (S (S (S (S (S (S (S O))))))))))) :: []))) :: ((TU (S
+    (S (S (S (S (S (S (S O))))))))) :: ((TU (S (S (S (S (S (S (S (S
+    O))))))))) :: [])))) :: ((TSeq (TU (S (S (S (S (S (S (S (S
+    O)))))))))) :: ((TArr ((S (S O)), (TSeq (TU (S (S (S (S (S (S (S (S
+    O)))))))))))) :: []))))) :: ((TU (S (S (S (S (S (S (S (S
+    O))))))))) :: []))))) :: [])))))
+
+(** val schema_5 : ty **)
+
+let schema_5 =
+  TTuple ((TU (S (S (S (S (S (S (S (S O))))))))) :: ((TU (S (S (S (S (S (S (S
+    (S O))))))))) :: ((TU (S (S (S (S (S (S (S (S (S (S (S (S (S (S (S (S
+    O))))))))))))))))) :: ((TSeq (TTuple ((TTuple ((TSeq (TTuple ((TArr ((S
+    (S (S (S O)))), (TU (S (S (S (S (S (S (S (S (S (S (S (S (S (S (S (S
+    O))))))))))))))))))) :: []))) :: ((TU (S (S (S (S (S (S (S (S
+    O))))))))) :: []))) :: ((TTuple ((TSeq (TTuple ((TArr ((S (S (S (S O)))),
+    (TU (S (S (S (S (S (S (S (S (S (S (S (S (S (S (S (S
+    O))))))))))))))))))) :: []))) :: ((TArr ((S (S (S (S O)))), (TSeq (TU (S
+    (S (S (S O)))))))) :: []))) :: ((TArr ((S (S (S (S (S O))))), (TU (S (S
+    (S (S (S (S (S (S O))))))))))) :: []))))) :: ((TOpt (TSeq (TTuple ((TSeq
+    (TTuple ((TTuple ((TSeq (TTuple ((TArr ((S (S (S (S (S (S (S (S
+    O)))))))), (TU (S (S (S (S (S (S (S (S O))))))))))) :: []))) :: ((TU (S
+    (S (S (S (S (S (S (S O))))))))) :: ((TU (S (S (S (S (S (S (S (S
+    O))))))))) :: [])))) :: ((TSeq (TU (S (S (S (S (S (S (S (S
+    O)))))))))) :: ((TArr ((S (S O)), (TSeq (TU (S (S (S (S (S (S (S (S
+    O)))))))))))) :: []))))) :: ((TU (S (S (S (S (S (S (S (S
+    O))))))))) :: []))))) :: [])))))
+
+(** val schema_6 : ty **)
+
+let schema_6 =
+  TTuple ((TU (S (S (S (S (S (S (S (S O))))))))) :: ((TU (S (S (S (S (S (S (S
+    (S O))))))))) :: ((TU (S O)) :: ((TSeq (TTuple ((TTuple ((TSeq (TTuple
+    ((TArr ((S (S (S (S O)))), (TU (S (S (S (S (S (S (S (S (S (S (S (S (S (S
+    (S (S O))))))))))))))))))) :: []))) :: ((TU (S (S (S (S (S (S (S (S
+    O))))))))) :: []))) :: ((TTuple ((TSeq (TTuple ((TArr ((S (S (S (S O)))),
+    (TU (S (S (S (S (S (S (S (S (S (S (S (S (S (S (S (S
+    O))))))))))))))))))) :: []))) :: ((TArr ((S (S (S (S O)))), (TSeq (TU (S
+    (S (S (S O)))))))) :: []))) :: ((TArr ((S (S (S (S (S O))))), (TU (S (S
+    (S (S (S (S (S (S O))))))))))) :: []))))) :: ((TOpt (TSeq (TTuple ((TSeq
+    (TTuple ((TTuple ((TSeq (TTuple ((TArr ((S (S (S (S (S (S (S (S
+    O)))))))), (TU (S (S (S (S (S (S (S (S O))))))))))) :: []))) :: ((TU (S
+    (S (S (S (S (S (S (S O))))))))) :: ((TU (S (S (S (S (S (S (S (S
+    O))))))))) :: [])))) :: ((TSeq (TU (S (S (S (S (S (S (S (S
+    O)))))))))) :: ((TArr ((S (S O)), (TSeq (TU (S (S (S (S (S (S (S (S
+    O)))))))))))) :: []))))) :: ((TU (S (S (S (S (S (S (S (S
+    O))))))))) :: []))))) :: [])))))
+
+(** val schema_7 : ty **)
+
+let schema_7 =
+  TTuple ((TU (S (S (S (S (S (S (S (S O))))))))) :: ((TU (S (S (S (S (S (S (S
+    (S O))))))))) :: ((TU (S (S O))) :: ((TSeq (TTuple ((TTuple ((TSeq
+    (TTuple ((TArr ((S (S (S (S O)))), (TU (S (S (S (S (S (S (S (S (S (S (S
+    (S (S (S (S (S O))))))))))))))))))) :: []))) :: ((TU (S (S (S (S (S (S (S
+    (S O))))))))) :: []))) :: ((TTuple ((TSeq (TTuple ((TArr ((S (S (S (S
+    O)))), (TU (S (S (S (S (S (S (S (S (S (S (S (S (S (S (S (S
+    O))))))))))))))))))) :: []))) :: ((TArr ((S (S (S (S O)))), (TSeq (TU (S
+    (S (S (S O)))))))) :: []))) :: ((TArr ((S (S (S (S (S O))))), (TU (S (S
+    (S (S (S (S (S (S O))))))))))) :: []))))) :: ((TOpt (TSeq (TTuple ((TSeq
+    (TTuple ((TTuple ((TSeq (TTuple ((TArr ((S (S (S (S (S (S (S (S
+    O)))))))), (TU (S (S (S (S (S (S (S (S O))))))))))) :: []))) :: ((TU (S
+    (S (S (S (S (S (S (S O))))))))) :: ((TU (S (S (S (S (S (S (S (S
+    O))))))))) :: [])))) :: ((TSeq (TU (S (S (S (S (S (S (S (S
+    O)))))))))) :: ((TArr ((S (S O)), (TSeq (TU (S (S (S (S (S (S (S (S
+    O)))))))))))) :: []))))) :: ((TU (S (S (S (S (S (S (S (S
+    O))))))))) :: []))))) :: [])))))
+
+(** val schema_8 : ty **)
+
+let schema_8 =
+  TTuple ((TU (S (S (S (S (S (S (S (S O))))))))) :: ((TU (S (S (S (S (S (S (S
+    (S O))))))))) :: ((TU (S (S (S (S O))))) :: ((TSeq (TTuple ((TTuple
+    ((TSeq (TTuple ((TArr ((S (S (S (S O)))), (TU (S (S (S (S (S (S (S (S (S
+    (S (S (S (S (S (S (S O))))))))))))))))))) :: []))) :: ((TU (S (S (S (S (S
+    (S (S (S O))))))))) :: []))) :: ((TTuple ((TSeq (TTuple ((TArr ((S (S (S
+    (S O)))), (TU (S (S (S (S (S (S (S (S (S (S (S (S (S (S (S (S
+    O))))))))))))))))))) :: []))) :: ((TArr ((S (S (S (S O)))), (TSeq (TU (S
+    (S (S (S O)))))))) :: []))) :: ((TArr ((S (S (S (S (S O))))), (TU (S (S
+    (S (S (S (S (S (S O))))))))))) :: []))))) :: ((TOpt (TSeq (TTuple ((TSeq
+    (TTuple ((TTuple ((TSeq (TTuple ((TArr ((S (S (S (S (S (S (S (S
+    O)))))))), (TU (S (S (S (S (S (S (S (S O))))))))))) :: []))) :: ((TU (S
+    (S (S (S (S (S (S (S O))))))))) :: ((TU (S (S (S (S (S (S (S (S
+    O))))))))) :: [])))) :: ((TSeq (TU (S (S (S (S (S (S (S (S
+    O)))))))))) :: ((TArr ((S (S O)), (TSeq (TU (S (S (S (S (S (S (S (S
+    O)))))))))))) :: []))))) :: ((TU (S (S (S (S (S (S (S (S
+    O))))))))) :: []))))) :: [])))))
+
+(** val schema_9 : ty **)
+
+let schema_9 =
+  TTuple ((TU (S (S (S (S (S (S (S (S O))))))))) :: ((TU (S (S (S (S (S (S (S
+    (S O))))))))) :: ((TU (S (S (S (S (S (S (S (S O))))))))) :: ((TSeq
+    (TTuple ((TTuple ((TSeq (TTuple ((TArr ((S (S (S (S O)))), (TU (S (S (S
+    (S (S (S (S (S (S (S (S (S (S (S (S (S
+    O))))))))))))))))))) :: []))) :: ((TU (S (S (S (S (S (S (S (S
+    O))))))))) :: []))) :: ((TTuple ((TSeq (TTuple ((TArr ((S (S (S (S O)))),
+    (TU (S (S (S (S (S (S (S (S (S (S (S (S (S (S (S (S
+    O))))))))))))))))))) :: []))) :: ((TArr ((S (S (S (S O)))), (TSeq (TU (S
+    (S (S (S O)))))))) :: []))) :: ((TArr ((S (S (S (S (S O))))), (TU (S (S
+    (S (S (S (S (S (S O))))))))))) :: []))))) :: ((TOpt (TSeq (TTuple ((TSeq
+    (TTuple ((TTuple ((TSeq (TTuple ((TArr ((S (S (S (S (S (S (S (S
+    O)))))))), (TU (S (S (S (S (S (S (S (S O))))))))))) :: []))) :: ((TU (S
+    (S (S (S (S (S (S (S O))))))))) :: ((TU (S (S (S (S (S (S (S (S
+    O))))))))) :: [])))) :: ((TSeq (TU (S (S (S (S (S (S (S (S
+    O)))))))))) :: ((TArr ((S (S O)), (TSeq (TU (S (S (S (S (S (S (S (S
+    O)))))))))))) :: []))))) :: ((TU (S (S (S (S (S (S (S (S
+    O))))))))) :: []))))) :: [])))))
+
+(** val schema_10 : ty **)
+
+let schema_10 =
+  TTuple ((TU (S (S (S (S (S (S (S (S O))))))))) :: ((TU (S (S (S (S (S (S (S
+    (S O))))))))) :: ((TU (S (S (S (S (S (S (S (S O))))))))) :: ((TSeq
+    (TTuple ((TTuple ((TSeq (TTuple ((TArr ((S (S (S (S O)))), (TU (S (S (S
+    (S (S (S (S (S (S (S (S (S (S (S (S (S
+    O))))))))))))))))))) :: []))) :: ((TU (S (S (S (S (S (S (S (S
+    O))))))))) :: []))) :: ((TTuple ((TSeq (TTuple ((TArr ((S (S (S (S O)))),
+    (TU (S (S (S (S (S (S (S (S (S (S (S (S (S (S (S (S
+    O))))))))))))))))))) :: []))) :: ((TArr ((S (S (S (S O)))), (TSeq (TU (S
+    (S (S (S O)))))))) :: []))) :: ((TArr ((S (S (S (S (S O))))), (TU (S (S
+    (S (S (S (S (S (S O))))))))))) :: []))))) :: ((TOpt (TSeq (TTuple ((TSeq
+    (TTuple ((TTuple ((TSeq (TTuple ((TArr ((S (S (S (S (S (S (S (S
+    O)))))))), (TU (S (S (S (S (S (S (S (S O))))))))))) :: []))) :: ((TU (S
+    (S (S (S (S (S (S (S O))))))))) :: ((TU (S (S (S (S (S (S (S (S
+    O))))))))) :: [])))) :: ((TSeq (TU (S (S (S (S (S (S (S (S
+    O)))))))))) :: ((TArr ((S (S O)), (TSeq (TU (S (S (S (S (S (S (S (S
+    O)))))))))))) :: []))))) :: ((TU (S (S (S (S (S (S (S (S
+    O))))))))) :: []))))) :: [])))))
+
+(** val schema_11 : ty **)
+
+let schema_11 =
+  TTuple ((TU (S (S (S (S (S (S (S (S O))))))))) :: ((TU (S (S (S (S (S (S (S
+    (S O))))))))) :: ((TU (S (S (S (S (S (S (S (S (S (S (S (S (S (S (S (S
+    O))))))))))))))))) :: ((TSeq (TTuple ((TTuple ((TSeq (TTuple ((TArr ((S
+    (S (S (S O)))), (TU (S (S (S (S (S (S (S (S (S (S (S (S (S (S (S (S
+    O))))))))))))))))))) :: []))) :: ((TU (S (S (S (S (S (S (S (S
+    O))))))))) :: []))) :: ((TTuple ((TSeq (TTuple ((TArr ((S (S (S (S O)))),
+    (TU (S (S (S (S (S (S (S (S (S (S (S (S (S (S (S (S
+    O))))))))))))))))))) :: []))) :: ((TArr ((S (S (S (S O)))), (TSeq (TU (S
+    (S (S (S O)))))))) :: []))) :: ((TArr ((S (S (S (S (S O))))), (TU (S (S
+    (S (S (S (S (S (S O))))))))))) :: []))))) :: ((TOpt (TSeq (TTuple ((TSeq
+    (TTuple ((TTuple ((TSeq (TTuple ((TArr ((S (S (S (S (S (S (S (S
+    O)))))))), (TU (S (S (S (S (S (S (S (S O))))))))))) :: []))) :: ((TU (S
+    (S (S (S (S (S (S (S O))))))))) :: ((TU (S (S (S (S (S (S (S (S
+    O))))))))) :: [])))) :: ((TSeq (TU (S (S (S (S (S (S (S (S
+    O)))))))))) :: ((TArr ((S (S O)), (TSeq (TU (S (S (S (S (S (S (S (S
+    O)))))))))))) :: []))))) :: ((TU (S (S (S (S (S (S (S (S
+    O))))))))) :: []))))) :: [])))))
+
+(** val schema_12 : ty **)
+
+let schema_12 =
+  TTuple ((TU (S (S (S (S (S (S (S (S O))))))))) :: ((TU (S (S (S (S (S (S (S
+    (S O))))))))) :: ((TU (S O)) :: ((TSeq (TTuple ((TTuple ((TSeq (TTuple
+    ((TArr ((S (S (S (S O)))), (TU (S (S (S (S (S (S (S (S (S (S (S (S (S (S
+    (S (S O))))))))))))))))))) :: []))) :: ((TU (S (S (S (S (S (S (S (S
+    O))))))))) :: []))) :: ((TTuple ((TSeq (TTuple ((TArr ((S (S (S (S O)))),
+    (TU (S (S (S (S (S (S (S (S (S (S (S (S (S (S (S (S
+    O))))))))))))))))))) :: []))) :: ((TArr ((S (S (S (S O)))), (TSeq (TU (S
+    (S (S (S O)))))))) :: []))) :: ((TArr ((S (S (S (S (S O))))), (TU (S (S
+    (S (S (S (S (S (S O))))))))))) :: []))))) :: ((TOpt (TSeq (TTuple ((TSeq
+    (TTuple ((TTuple ((TSeq (TTuple ((TArr ((S (S (S (S (S (S (S (S
+    O)))))))), (TU (S (S (S (S (S (S (S (S O))))))))))) :: []))) :: ((TU (S
+    (S (S (S (S (S (S (S O))))))))) :: ((TU (S (S (S (S (S (S (S (S
+    O))))))))) :: [])))) :: ((TSeq (TU (S (S (S (S (S (S (S (S
+    O)))))))))) :: ((TArr ((S (S O)), (TSeq (TU (S (S (S (S (S (S (S (S
+    O)))))))))))) :: []))))) :: ((TU (S (S (S (S (S (S (S (S
+    O))))))))) :: []))))) :: [])))))
+
+(** val schema_13 : ty **)
+
+let schema_13 =
+  TTuple ((TU (S (S (S (S (S (S (S (S O))))))))) :: ((TU (S (S (S (S (S (S (S
+    (S O))))))))) :: ((TU (S (S O))) :: ((TSeq (TTuple ((TTuple ((TSeq
+    (TTuple ((TArr ((S (S (S (S O)))), (TU (S (S (S (S (S (S (S (S (S (S (S
+    (S (S (S (S (S O))))))))))))))))))) :: []))) :: ((TU (S (S (S (S (S (S (S
+    (S O))))))))) :: []))) :: ((TTuple ((TSeq (TTuple ((TArr ((S (S (S (S
+    O)))), (TU (S (S (S (S (S (S (S (S (S (S (S (S (S (S (S (S
+    O))))))))))))))))))) :: []))) :: ((TArr ((S (S (S (S O)))), (TSeq (TU (S
+    (S (S (S O)))))))) :: []))) :: ((TArr ((S (S (S (S (S O))))), (TU (S (S
+    (S (S (S (S (S (S O))))))))))) :: []))))) :: ((TOpt (TSeq (TTuple ((TSeq
+    (TTuple ((TTuple ((TSeq (TTuple ((TArr ((S (S (S (S (S (S (S (S
+    O)))))))), (TU (S (S (S (S (S (S (S (S O))))))))))) :: []))) :: ((TU (S
+    (S (S (S (S (S (S (S O))))))))) :: ((TU (S (S (S (S (S (S (S (S
+    O))))))))) :: [])))) :: ((TSeq (TU (S (S (S (S (S (S (S (S
+    O)))))))))) :: ((TArr ((S (S O)), (TSeq (TU (S (S (S (S (S (S (S (S
+    O)))))))))))) :: []))))) :: ((TU (S (S (S (S (S (S (S (S
+    O))))))))) :: []))))) :: [])))))
+
+(** val schema_14 : ty **)
+
+let schema_14 =
+  TTuple ((TU (S (S (S (S (S (S (S (S O))))))))) :: ((TU (S (S (S (S (S (S (S
+    (S O))))))))) :: ((TU (S (S (S (S O))))) :: ((TSeq (TTuple ((TTuple
+    ((TSeq (TTuple ((TArr ((S (S (S (S O)))), (TU (S (S (S (S (S (S (S (S (S
+    (S (S (S (S (S (S (S O))))))))))))))))))) :: []))) :: ((TU (S (S (S (S (S
+    (S (S (S O))))))))) :: []))) :: ((TTuple ((TSeq (TTuple ((TArr ((S (S (S
+    (S O)))), (TU (S (S (S (S (S (S (S (S (S (S (S (S (S (S (S (S
+    O))))))))))))))))))) :: []))) :: ((TArr ((S (S (S (S O)))), (TSeq (TU (S
+    (S (S (S O)))))))) :: []))) :: ((TArr ((S (S (S (S (S O))))), (TU (S (S
+    (S (S (S (S (S (S O))))))))))) :: []))))) :: ((TOpt (TSeq (TTuple ((TSeq
+    (TTuple ((TTuple ((TSeq (TTuple ((TArr ((S (S (S (S (S (S (S (S
+    O)))))))), (TU (S (S (S (S (S (S (S (S O))))))))))) :: []))) :: ((TU (S
+    (S (S (S (S (S (S (S O))))))))) :: ((TU (S (S (S (S (S (S (S (S
+    O))))))))) :: [])))) :: ((TSeq (TU (S (S (S (S (S (S (S (S
+    O)))))))))) :: ((TArr ((S (S O)), (TSeq (TU (S (S (S (S (S (S (S (S
+    O)))))))))))) :: []))))) :: ((TU (S (S (S (S (S (S (S (S
+    O))))))))) :: []))))) :: [])))))
+
+(** val schema_15 : ty **)
+
+let schema_15 =
+  TTuple ((TU (S (S (S (S (S (S (S (S O))))))))) :: ((TU (S (S (S (S (S (S (S
+    (S O))))))))) :: ((TU (S (S (S (S (S (S (S (S O))))))))) :: ((TSeq
+    (TTuple ((TTuple ((TSeq (TTuple ((TArr ((S (S (S (S O)))), (TU (S (S (S
+    (S (S (S (S (S (S (S (S (S (S (S (S (S
+    O))))))))))))))))))) :: []))) :: ((TU (S (S (S (S (S (S (S (S
+    O))))))))) :: []))) :: ((TTuple ((TSeq (TTuple ((TArr ((S (S (S (S O)))),
+    (TU (S (S (S (S (S (S (S (S (S (S (S (S (S (S (S (S
+    O))))))))))))))))))) :: []))) :: ((TArr ((S (S (S (S O)))), (TSeq (TU (S
+    (S (S (S O)))))))) :: []))) :: ((TArr ((S (S (S (S (S O))))), (TU (S (S
+    (S (S (S (S (S (S O))))))))))) :: []))))) :: ((TOpt (TSeq (TTuple ((TSeq
+    (TTuple ((TTuple ((TSeq (TTuple ((TArr ((S (S (S (S (S (S (S (S
+    O)))))))), (TU (S (S (S (S (S (S (S (S O))))))))))) :: []))) :: ((TU (S
+    (S (S (S (S (S (S (S O))))))))) :: ((TU (S (S (S (S (S (S (S (S
+    O))))))))) :: [])))) :: ((TSeq (TU (S (S (S (S (S (S (S (S
+    O)))))))))) :: ((TArr ((S (S O)), (TSeq (TU (S (S (S (S (S (S (S (S
+    O)))))))))))) :: []))))) :: ((TU (S (S (S (S (S (S (S (S
+    O))))))))) :: []))))) :: [])))))
+
+(** val schema_16 : ty **)
+
+let schema_16 =
+  TTuple ((TU (S (S (S (S (S (S (S (S O))))))))) :: ((TU (S (S (S (S (S (S (S
+    (S O))))))))) :: ((TU (S (S (S (S (S (S (S (S O))))))))) :: ((TSeq
+    (TTuple ((TTuple ((TSeq (TTuple ((TArr ((S (S (S (S O)))), (TU (S (S (S
+    (S (S (S (S (S (S (S (S (S (S (S (S (S
+    O))))))))))))))))))) :: []))) :: ((TU (S (S (S (S (S (S (S (S
+    O))))))))) :: []))) :: ((TTuple ((TSeq (TTuple ((TArr ((S (S (S (S O)))),
+    (TU (S (S (S (S (S (S (S (S (S (S (S (S (S (S (S (S
+    O))))))))))))))))))) :: []))) :: ((TArr ((S (S (S (S O)))), (TSeq (TU (S
+    (S (S (S O)))))))) :: []))) :: ((TArr ((S (S (S (S (S O))))), (TU (S (S
+    (S (S (S (S (S (S O))))))))))) :: []))))) :: ((TOpt (TSeq (TTuple ((TSeq
+    (TTuple ((TTuple ((TSeq (TTuple ((TArr ((S (S (S (S (S (S (S (S
+    O)))))))), (TU (S (S (S (S (S (S (S (S O))))))))))) :: []))) :: ((TU (S
+    (S (S (S (S (S (S (S O))))))))) :: ((TU (S (S (S (S (S (S (S (S
+    O))))))))) :: [])))) :: ((TSeq (TU (S (S (S (S (S (S (S (S
+    O)))))))))) :: ((TArr ((S (S O)), (TSeq (TU (S (S (S (S (S (S (S (S
+    O)))))))))))) :: []))))) :: ((TU (S (S (S (S (S (S (S (S
+    O))))))))) :: []))))) :: [])))))
+
+(** val schema_17 : ty **)
+
+let schema_17 =
+  TTuple ((TU (S (S (S (S (S (S (S (S O))))))))) :: ((TU (S (S (S (S (S (S (S
+    (S O))))))))) :: ((TU (S (S (S (S (S (S (S (S (S (S (S (S (S (S (S (S
+    O))))))))))))))))) :: ((TSeq (TTuple ((TTuple ((TSeq (TTuple ((TArr ((S
+    (S (S (S O)))), (TU (S (S (S (S (S (S (S (S (S (S (S (S (S (S (S (S
+    O))))))))))))))))))) :: []))) :: ((TU (S (S (S (S (S (S (S (S
+    O))))))))) :: []))) :: ((TTuple ((TSeq (TTuple ((TArr ((S (S (S (S O)))),
+    (TU (S (S (S (S (S (S (S (S (S (S (S (S (S (S (S (S
+    O))))))))))))))))))) :: []))) :: ((TArr ((S (S (S (S O)))), (TSeq (TU (S
+    (S (S (S O)))))))) :: []))) :: ((TArr ((S (S (S (S (S O))))), (TU (S (S
+    (S (S (S (S (S (S O))))))))))) :: []))))) :: ((TOpt (TSeq (TTuple ((TSeq
+    (TTuple ((TTuple ((TSeq (TTuple ((TArr ((S (S (S (S (S (S (S (S
+    O)))))))), (TU (S (S (S (S (S (S (S (S O))))))))))) :: []))) :: ((TU (S
+    (S (S (S (S (S (S (S O))))))))) :: ((TU (S (S (S (S (S (S (S (S
+    O))))))))) :: [])))) :: ((TSeq (TU (S (S (S (S (S (S (S (S
+    O)))))))))) :: ((TArr ((S (S O)), (TSeq (TU (S (S (S (S (S (S (S (S
+    O)))))))))))) :: []))))) :: ((TU (S (S (S (S (S (S (S (S
+    O))))))))) :: []))))) :: [])))))
+
+(** val schema_18 : ty **)
+
+let schema_18 =
+  TTuple ((TU (S (S (S (S (S (S (S (S O))))))))) :: ((TU (S (S (S (S (S (S (S
+    (S O))))))))) :: ((TU (S O)) :: ((TSeq (TTuple ((TTuple ((TSeq (TTuple
+    ((TArr ((S (S (S (S O)))), (TU (S (S (S (S (S (S (S (S (S (S (S (S (S (S
+    (S (S O))))))))))))))))))) :: []))) :: ((TU (S (S (S (S (S (S (S (S
+    O))))))))) :: []))) :: ((TTuple ((TSeq (TTuple ((TArr ((S (S (S (S O)))),
+    (TU (S (S (S (S (S (S (S (S (S (S (S (S (S (S (S (S
+    O))))))))))))))))))) :: []))) :: ((TArr ((S (S (S (S O)))), (TSeq (TU (S
+    (S (S (S O)))))))) :: []))) :: ((TArr ((S (S (S (S (S O))))), (TU (S (S
+    (S (S (S (S (S (S O))))))))))) :: []))))) :: ((TOpt (TSeq (TTuple ((TSeq
+    (TTuple ((TTuple ((TSeq (TTuple ((TArr ((S (S (S (S (S (S (S (S
+    O)))))))), (TU (S (S (S (S (S (S (S (S O))))))))))) :: []))) :: ((TU (S
+    (S (S (S (S (S (S (S O))))))))) :: ((TU (S (S (S (S (S (S (S (S
+    O))))))))) :: [])))) :: ((TSeq (TU (S (S (S (S (S (S (S (S
+    O)))))))))) :: ((TArr ((S (S O)), (TSeq (TU (S (S (S (S (S (S (S (S
+    O)))))))))))) :: []))))) :: ((TU (S (S (S (S (S (S (S (S
+    O))))))))) :: []))))) :: [])))))
+
+(** val schema_19 : ty **)
+
+let schema_19 =
+  TTuple ((TU (S (S (S (S (S (S (S (S O))))))))) :: ((TU (S (S (S (S (S (S (S
+    (S O))))))))) :: ((TU (S (S O))) :: ((TSeq (TTuple ((TTuple ((TSeq
+    (TTuple ((TArr ((S (S (S (S O)))), (TU (S (S (S (S (S (S (S (S (S (S (S
+    (S (S (S (S (S O))))))))))))))))))) :: []))) :: ((TU (S (S (S (S (S (S (S
+    (S O))))))))) :: []))) :: ((TTuple ((TSeq (TTuple ((TArr ((S (S (S (S
+    O)))), (TU (S (S (S (S (S (S (S (S (S (S (S (S (S (S (S (S
+    O))))))))))))))))))) :: []))) :: ((TArr ((S (S (S (S O)))), (TSeq (TU (S
+    (S (S (S O)))))))) :: []))) :: ((TArr ((S (S (S (S (S O))))), (TU (S (S
+    (S (S (S (S (S (S O))))))))))) :: []))))) :: ((TOpt (TSeq (TTuple ((TSeq
+    (TTuple ((TTuple ((TSeq (TTuple ((TArr ((S (S (S (S (S (S (S (S
+    O)))))))), (TU (S (S (S (S (S (S (S (S O))))))))))) :: []))) :: ((TU (S
+    (S (S (S (S (S (S (S O))))))))) :: ((TU (S (S (S (S (S (S (S (S
+    O))))))))) :: [])))) :: ((TSeq (TU (S (S (S (S (S (S (S (S
+    O)))))))))) :: ((TArr ((S (S O)), (TSeq (TU (S (S (S (S (S (S (S (S
+    O)))))))))))) :: []))))) :: ((TU (S (S (S (S (S (S (S (S
+    O))))))))) :: []))))) :: [])))))
+
+(** val schema_20 : ty **)
+
+let schema_20 =
+  TTuple ((TU (S (S (S (S (S (S (S (S O))))))))) :: ((TU (S (S (S (S (S (S (S
+    (S O))))))))) :: ((TU (S (S (S (S O))))) :: ((TSeq (TTuple ((TTuple
+    ((TSeq (TTuple ((TArr ((S (S (S (S O)))), (TU (S (S (S (S (S (S (S (S (S
+    (S (S (S (S (S (S (S O))))))))))))))))))) :: []))) :: ((TU (S (S (S (S (S
+    (S (S (S O))))))))) :: []))) :: ((TTuple ((TSeq (TTuple ((TArr ((S (S (S
+    (S O)))), (TU (S (S (S (S (S (S (S (S (S (S (S (S (S (S (S (S
+    O))))))))))))))))))) :: []))) :: ((TArr ((S (S (S (S O)))), (TSeq (TU (S
+    (S (S (S O)))))))) :: []))) :: ((TArr ((S (S (S (S (S O))))), (TU (S (S
+    (S (S (S (S (S (S O))))))))))) :: []))))) :: ((TOpt (TSeq (TTuple ((TSeq
+    (TTuple ((TTuple ((TSeq (TTuple ((TArr ((S (S (S (S (S (S (S (S
+    O)))))))), (TU (S (S (S (S (S (S (S (S O))))))))))) :: []))) :: ((TU (S
+    (S (S (S (S (S (S (S O))))))))) :: ((TU (S (S (S (S (S (S (S (S
+    O))))))))) :: [])))) :: ((TSeq (TU (S (S (S (S (S (S (S (S
+    O)))))))))) :: ((TArr ((S (S O)), (TSeq (TU (S (S (S (S (S (S (S (S
+    O)))))))))))) :: []))))) :: ((TU (S (S (S (S (S (S (S (S
+    O))))))))) :: []))))) :: [])))))
+
+(** val schema_21 : ty **)
+
+let schema_21 =
+  TTuple ((TU (S (S (S (S (S (S (S (S O))))))))) :: ((TU (S (S (S (S (S (S (S
+    (S O))))))))) :: ((TU (S (S (S (S (S (S (S (S O))))))))) :: ((TSeq
+    (TTuple ((TTuple ((TSeq (TTuple ((TArr ((S (S (S (S O)))), (TU (S (S (S
+    (S (S (S (S (S (S (S (S (S (S (S (S (S
+    O))))))))))))))))))) :: []))) :: ((TU (S (S (S (S (S (S (S (S
+    O))))))))) :: []))) :: ((TTuple ((TSeq (TTuple ((TArr ((S (S (S (S O)))),
+    (TU (S (S (S (S (S (S (S (S (S (S (S (S (S (S (S (S
+    O))))))))))))))))))) :: []))) :: ((TArr ((S (S (S (S O)))), (TSeq (TU (S
+    (S (S (S O)))))))) :: []))) :: ((TArr ((S (S (S (S (S O))))), (TU (S (S
+    (S (S (S (S (S (S O))))))))))) :: []))))) :: ((TOpt (TSeq (TTuple ((TSeq
+    (TTuple ((TTuple ((TSeq (TTuple ((TArr ((S (S (S (S (S (S (S (S
+    O)))))))), (TU (S (S (S (S (S (S (S (S O))))))))))) :: []))) :: ((TU (S
+    (S (S (S (S (S (S (S O))))))))) :: ((TU (S (S (S (S (S (S (S (S
+    O))))))))) :: [])))) :: ((TSeq (TU (S (S (S (S (S (S (S (S
+    O)))))))))) :: ((TArr ((S (S O)), (TSeq (TU (S (S (S (S (S (S (S (S
+    O)))))))))))) :: []))))) :: ((TU (S (S (S (S (S (S (S (S
+    O))))))))) :: []))))) :: [])))))
+
+(** val schema_22 : ty **)
+
+let schema_22 =
+  TTuple ((TU (S (S (S (S (S (S (S (S O))))))))) :: ((TU (S (S (S (S (S (S (S
+    (S O))))))))) :: ((TU (S (S (S (S (S (S (S (S O))))))))) :: ((TSeq
+    (TTuple ((TTuple ((TSeq (TTuple ((TArr ((S (S (S (S O)))), (TU (S (S (S
+    (S (S (S (S (S (S (S (S (S (S (S (S (S
+    O))))))))))))))))))) :: []))) :: ((TU (S (S (S (S (S (S (S (S
+    O))))))))) :: []))) :: ((TTuple ((TSeq (TTuple ((TArr ((S (S (S (S O)))),
+    (TU (S (S (S (S (S (S (S (S (S (S (S (S (S (S (S (S
+    O))))))))))))))))))) :: []))) :: ((TArr ((S (S (S (S O)))), (TSeq (TU (S
+    (S (S (S O)))))))) :: []))) :: ((TArr ((S (S (S (S (S O))))), (TU (S (S
+    (S (S (S (S (S (S O))))))))))) :: []))))) :: ((TOpt (TSeq (TTuple ((TSeq
+    (TTuple ((TTuple ((TSeq (TTuple ((TArr ((S (S (S (S (S (S (S (S
+    O)))))))), (TU (S (S (S (S (S (S (S (S O))))))))))) :: []))) :: ((TU (S
+    (S (S (S (S (S (S (S O))))))))) :: ((TU (S (S (S (S (S (S (S (S
+    O))))))))) :: [])))) :: ((TSeq (TU (S (S (S (S (S (S (S (S
+    O)))))))))) :: ((TArr ((S (S O)), (TSeq (TU (S (S (S (S (S (S (S (S
+    O)))))))))))) :: []))))) :: ((TU (S (S (S (S (S (S (S (S
+    O))))))))) :: []))))) :: [])))))
+
+(** val schema_23 : ty **)
+
+let schema_23 =
+  TTuple ((TU (S (S (S (S (S (S (S (S O))))))))) :: ((TU (S (S (S (S (S (S (S
+    (S O))))))))) :: ((TU (S (S (S (S (S (S (S (S (S (S (S (S (S (S (S (S
+    O))))))))))))))))) :: ((TSeq (TTuple ((TTuple ((TSeq (TTuple ((TArr ((S
+    (S (S (S O)))), (TU (S (S (S (S (S (S (S (S (S (S (S (S (S (S (S (S
+    O))))))))))))))))))) :: []))) :: ((TU (S (S (S (S (S (S (S (S
+    O))))))))) :: []))) :: ((TTuple ((TSeq (TTuple ((TArr ((S (S (S (S O)))),
+    (TU (S (S (S (S (S (S (S (S (S (S (S (S (S (S (S (S
+    O))))))))))))))))))) :: []))) :: ((TArr ((S (S (S (S O)))), (TSeq (TU (S
+    (S (S (S O)))))))) :: []))) :: ((TArr ((S (S (S (S (S O))))), (TU (S (S
+    (S (S (S (S (S (S O))))))))))) :: []))))) :: ((TOpt (TSeq (TTuple ((TSeq
+    (TTuple ((TTuple ((TSeq (TTuple ((TArr ((S (S (S (S (S (S (S (S
+    O)))))))), (TU (S (S (S (S (S (S (S (S O))))))))))) :: []))) :: ((TU (S
+    (S (S (S (S (S (S (S O))))))))) :: ((TU (S (S (S (S (S (S (S (S
+    O))))))))) :: [])))) :: ((TSeq (TU (S (S (S (S (S (S (S (S
+    O)))))))))) :: ((TArr ((S (S O)), (TSeq (TU (S (S (S (S (S (S (S (S
+    O)))))))))))) :: []))))) :: ((TU (S (S (S (S (S (S (S (S
+    O))))))))) :: []))))) :: [])))))
+
+(** val schema_24 : ty **)
+
+let schema_24 =
+  TTuple ((TU (S (S (S (S (S (S (S (S O))))))))) :: ((TU (S (S (S (S (S (S (S
+    (S O))))))))) :: ((TSeq (TTuple ((TU (S (S (S (S O))))) :: ((TU (S (S (S
+    (S O))))) :: [])))) :: ((TSeq (TSeq (TTuple ((TU (S (S (S (S
+    O))))) :: ((TU (S O)) :: []))))) :: ((TSeq (TTuple ((TTuple ((TSeq
+    (TTuple ((TArr ((S (S (S (S O)))), (TU (S (S (S (S (S (S (S (S (S (S (S
+    (S (S (S (S (S O))))))))))))))))))) :: []))) :: ((TU (S (S (S (S (S (S (S
+    (S O))))))))) :: []))) :: ((TTuple ((TSeq (TTuple ((TArr ((S (S (S (S
+    O)))), (TU (S (S (S (S (S (S (S (S (S (S (S (S (S (S (S (S
+    O))))))))))))))))))) :: []))) :: ((TArr ((S (S (S (S O)))), (TSeq (TU (S
+    (S (S (S O)))))))) :: []))) :: ((TArr ((S (S (S (S (S O))))), (TU (S (S
+    (S (S (S (S (S (S O))))))))))) :: []))))) :: ((TSeq (TU (S (S (S (S (S (S
+    (S (S O)))))))))) :: (TUnit :: ((TOpt (TSeq (TTuple ((TSeq (TTuple
+    ((TTuple ((TSeq (TTuple ((TArr ((S (S (S (S (S (S (S (S O)))))))), (TU (S
+    (S (S (S (S (S (S (S O))))))))))) :: []))) :: ((TU (S (S (S (S (S (S (S
+    (S O))))))))) :: ((TU (S (S (S (S (S (S (S (S
+    O))))))))) :: [])))) :: ((TSeq (TU (S (S (S (S (S (S (S (S
+    O)))))))))) :: ((TArr ((S (S O)), (TSeq (TU (S (S (S (S (S (S (S (S
+    O)))))))))))) :: []))))) :: ((TU (S (S (S (S (S (S (S (S
+    O))))))))) :: []))))) :: []))))))))
+
+(** val schema_25 : ty **)
+
+let schema_25 =
+  TTuple ((TU (S (S (S (S (S (S (S (S O))))))))) :: ((TU (S (S (S (S (S (S (S
+    (S O))))))))) :: ((TSeq (TTuple ((TU (S (S (S (S O))))) :: ((TU (S (S (S
+    (S O))))) :: [])))) :: ((TSeq (TSeq (TTuple ((TU (S (S (S (S
+    O))))) :: ((TU (S (S O))) :: []))))) :: ((TSeq (TTuple ((TTuple ((TSeq
+    (TTuple ((TArr ((S (S (S (S O)))), (TU (S (S (S (S (S (S (S (S (S (S (S
+    (S (S (S (S (S O))))))))))))))))))) :: []))) :: ((TU (S (S (S (S (S (S (S
+    (S O))))))))) :: []))) :: ((TTuple ((TSeq (TTuple ((TArr ((S (S (S (S
+    O)))), (TU (S (S (S (S (S (S (S (S (S (S (S (S (S (S (S (S
+    O))))))))))))))))))) :: []))) :: ((TArr ((S (S (S (S O)))), (TSeq (TU (S
+    (S (S (S O)))))))) :: []))) :: ((TArr ((S (S (S (S (S O))))), (TU (S (S
+    (S (S (S (S (S (S O))))))))))) :: []))))) :: ((TSeq (TU (S (S (S (S (S (S
+    (S (S O)))))))))) :: (TUnit :: ((TOpt (TSeq (TTuple ((TSeq (TTuple
+    ((TTuple ((TSeq (TTuple ((TArr ((S (S (S (S (S (S (S (S O)))))))), (TU (S
+    (S (S (S (S (S (S (S O))))))))))) :: []))) :: ((TU (S (S (S (S (S (S (S
+    (S O))))))))) :: ((TU (S (S (S (S (S (S (S (S
+    O))))))))) :: [])))) :: ((TSeq (TU (S (S (S (S (S (S (S (S
+    O)))))))))) :: ((TArr ((S (S O)), (TSeq (TU (S (S (S (S (S (S (S (S
+    O)))))))))))) :: []))))) :: ((TU (S (S (S (S (S (S (S (S
+    O))))))))) :: []))))) :: []))))))))
+
+(** val schema_26 : ty **)
+
+let schema_26 =
+  TTuple ((TU (S (S (S (S (S (S (S (S O))))))))) :: ((TU (S (S (S (S (S (S (S
+    (S O))))))))) :: ((TSeq (TTuple ((TU (S (S (S (S O))))) :: ((TU (S (S (S
+    (S O))))) :: [])))) :: ((TSeq (TSeq (TTuple ((TU (S (S (S (S
+    O))))) :: ((TU (S (S (S (S O))))) :: []))))) :: ((TSeq (TTuple ((TTuple
+    ((TSeq (TTuple ((TArr ((S (S (S (S O)))), (TU (S (S (S (S (S (S (S (S (S
+    (S (S (S (S (S (S (S O))))))))))))))))))) :: []))) :: ((TU (S (S (S (S (S
+    (S (S (S O))))))))) :: []))) :: ((TTuple ((TSeq (TTuple ((TArr ((S (S (S
+    (S O)))), (TU (S (S (S (S (S (S (S (S (S (S (S (S (S (S (S (S
+    O))))))))))))))))))) :: []))) :: ((TArr ((S (S (S (S O)))), (TSeq (TU (S
+    (S (S (S O)))))))) :: []))) :: ((TArr ((S (S (S (S (S O))))), (TU (S (S
+    (S (S (S (S (S (S O))))))))))) :: []))))) :: ((TSeq (TU (S (S (S (S (S (S
+    (S (S O)))))))))) :: (TUnit :: ((TOpt (TSeq (TTuple ((TSeq (TTuple
+    ((TTuple ((TSeq (TTuple ((TArr ((S (S (S (S (S (S (S (S O)))))))), (TU (S
+    (S (S (S (S (S (S (S O))))))))))) :: []))) :: ((TU (S (S (S (S (S (S (S
+    (S O))))))))) :: ((TU (S (S (S (S (S (S (S (S
+    O))))))))) :: [])))) :: ((TSeq (TU (S (S (S (S (S (S (S (S
+    O)))))))))) :: ((TArr ((S (S O)), (TSeq (TU (S (S (S (S (S (S (S (S
+    O)))))))))))) :: []))))) :: ((TU (S (S (S (S (S (S (S (S
+    O))))))))) :: []))))) :: []))))))))
+
+(** val schema_27 : ty **)
+
+let schema_27 =
+  TTuple ((TU (S (S (S (S (S (S (S (S O))))))))) :: ((TU (S (S (S (S (S (S (S
+    (S O))))))))) :: ((TSeq (TTuple ((TU (S (S (S (S O))))) :: ((TU (S (S (S
+    (S O))))) :: [])))) :: ((TSeq (TSeq (TTuple ((TU (S (S (S (S
+    O))))) :: ((TU (S (S (S (S (S (S (S (S O))))))))) :: []))))) :: ((TSeq
+    (TTuple ((TTuple ((TSeq (TTuple ((TArr ((S (S (S (S O)))), (TU (S (S (S
+    (S (S (S (S (S (S (S (S (S (S (S (S (S
+    O))))))))))))))))))) :: []))) :: ((TU (S (S (S (S (S (S (S (S
+    O))))))))) :: []))) :: ((TTuple ((TSeq (TTuple ((TArr ((S (S (S (S O)))),
+    (TU (S (S (S (S (S (S (S (S (S (S (S (S (S (S (S (S
+    O))))))))))))))))))) :: []))) :: ((TArr ((S (S (S (S O)))), (TSeq (TU (S
+    (S (S (S O)))))))) :: []))) :: ((TArr ((S (S (S (S (S O))))), (TU (S (S
+    (S (S (S (S (S (S O))))))))))) :: []))))) :: ((TSeq (TU (S (S (S (S (S (S
+    (S (S O)))))))))) :: (TUnit :: ((TOpt (TSeq (TTuple ((TSeq (TTuple
+    ((TTuple ((TSeq (TTuple ((TArr ((S (S (S (S (S (S (S (S O)))))))), (TU (S
+    (S (S (S (S (S (S (S O))))))))))) :: []))) :: ((TU (S (S (S (S (S (S (S
+    (S O))))))))) :: ((TU (S (S (S (S (S (S (S (S
+    O))))))))) :: [])))) :: ((TSeq (TU (S (S (S (S (S (S (S (S
+    O)))))))))) :: ((TArr ((S (S O)), (TSeq (TU (S (S (S (S (S (S (S (S
+    O)))))))))))) :: []))))) :: ((TU (S (S (S (S (S (S (S (S
+    O))))))))) :: []))))) :: []))))))))
+
+(** val schema_28 : ty **)
+
+let schema_28 =
+  TTuple ((TU (S (S (S (S (S (S (S (S O))))))))) :: ((TU (S (S (S (S (S (S (S
+    (S O))))))))) :: ((TSeq (TTuple ((TU (S (S (S (S O))))) :: ((TU (S (S (S
+    (S O))))) :: [])))) :: ((TSeq (TSeq (TTuple ((TU (S (S (S (S
+    O))))) :: ((TU (S (S (S (S (S (S (S (S O))))))))) :: []))))) :: ((TSeq
+    (TTuple ((TTuple ((TSeq (TTuple ((TArr ((S (S (S (S O)))), (TU (S (S (S
+    (S (S (S (S (S (S (S (S (S (S (S (S (S
+    O))))))))))))))))))) :: []))) :: ((TU (S (S (S (S (S (S (S (S
+    O))))))))) :: []))) :: ((TTuple ((TSeq (TTuple ((TArr ((S (S (S (S O)))),
+    (TU (S (S (S (S (S (S (S (S (S (S (S (S (S (S (S (S
+    O))))))))))))))))))) :: []))) :: ((TArr ((S (S (S (S O)))), (TSeq (TU (S
+    (S (S (S O)))))))) :: []))) :: ((TArr ((S (S (S (S (S O))))), (TU (S (S
+    (S (S (S (S (S (S O))))))))))) :: []))))) :: ((TSeq (TU (S (S (S (S (S (S
+    (S (S O)))))))))) :: (TUnit :: ((TOpt (TSeq (TTuple ((TSeq (TTuple
+    ((TTuple ((TSeq (TTuple ((TArr ((S (S (S (S (S (S (S (S O)))))))), (TU (S
+    (S (S (S (S (S (S (S O))))))))))) :: []))) :: ((TU (S (S (S (S (S (S (S
+    (S O))))))))) :: ((TU (S (S (S (S (S (S (S (S
+    O))))))))) :: [])))) :: ((TSeq (TU (S (S (S (S (S (S (S (S
+    O)))))))))) :: ((TArr ((S (S O)), (TSeq (TU (S (S (S (S (S (S (S (S
+    O)))))))))))) :: []))))) :: ((TU (S (S (S (S (S (S (S (S
+    O))))))))) :: []))))) :: []))))))))
+
+(** val schema_29 : ty **)
+
+let schema_29 =
+  TTuple ((TU (S (S (S (S (S (S (S (S O))))))))) :: ((TU (S (S (S (S (S (S (S
+    (S O))))))))) :: ((TSeq (TTuple ((TU (S (S (S (S O))))) :: ((TU (S (S (S
+    (S O))))) :: [])))) :: ((TSeq (TSeq (TTuple ((TU (S (S (S (S
+    O))))) :: ((TU (S (S (S (S (S (S (S (S (S (S (S (S (S (S (S (S
+    O))))))))))))))))) :: []))))) :: ((TSeq (TTuple ((TTuple ((TSeq (TTuple
+    ((TArr ((S (S (S (S O)))), (TU (S (S (S (S (S (S (S (S (S (S (S (S (S (S
+    (S (S O))))))))))))))))))) :: []))) :: ((TU (S (S (S (S (S (S (S (S
+    O))))))))) :: []))) :: ((TTuple ((TSeq (TTuple ((TArr ((S (S (S (S O)))),
+    (TU (S (S (S (S (S (S (S (S (S (S (S (S (S (S (S (S
+    O))))))))))))))))))) :: []))) :: ((TArr ((S (S (S (S O)))), (TSeq (TU (S
+    (S (S (S O)))))))) :: []))) :: ((TArr ((S (S (S (S (S O))))), (TU (S (S
+    (S (S (S (S (S (S O))))))))))) :: []))))) :: ((TSeq (TU (S (S (S (S (S (S
+    (S (S O)))))))))) :: (TUnit :: ((TOpt (TSeq (TTuple ((TSeq (TTuple
+    ((TTuple ((TSeq (TTuple ((TArr ((S (S (S (S (S (S (S (S O)))))))), (TU (S
+    (S (S (S (S (S (S (S O))))))))))) :: []))) :: ((TU (S (S (S (S (S (S (S
+    (S O))))))))) :: ((TU (S (S (S (S (S (S (S (S
+    O))))))))) :: [])))) :: ((TSeq (TU (S (S (S (S (S (S (S (S
+    O)))))))))) :: ((TArr ((S (S O)), (TSeq (TU (S (S (S (S (S (S (S (S
+    O)))))))))))) :: []))))) :: ((TU (S (S (S (S (S (S (S (S
+    O))))))))) :: []))))) :: []))))))))
+
+(** val schema_30 : ty **)
+
+let schema_30 =
+  TTuple ((TU (S (S (S (S (S (S (S (S O))))))))) :: ((TU (S (S (S (S (S (S (S
+    (S O))))))))) :: ((TSeq (TTuple ((TU (S (S (S (S O))))) :: ((TU (S (S (S
+    (S O))))) :: [])))) :: ((TSeq (TSeq (TTuple ((TU (S (S (S (S
+    O))))) :: ((TU (S O)) :: []))))) :: ((TSeq (TTuple ((TTuple ((TSeq
+    (TTuple ((TArr ((S (S (S (S O)))), (TU (S (S (S (S (S (S (S (S (S (S (S
+    (S (S (S (S (S O))))))))))))))))))) :: []))) :: ((TU (S (S (S (S (S (S (S
+    (S O))))))))) :: []))) :: ((TTuple ((TSeq (TTuple ((TArr ((S (S (S (S
+    O)))), (TU (S (S (S (S (S (S (S (S (S (S (S (S (S (S (S (S
+    O))))))))))))))))))) :: []))) :: ((TArr ((S (S (S (S O)))), (TSeq (TU (S
+    (S (S (S O)))))))) :: []))) :: ((TArr ((S (S (S (S (S O))))), (TU (S (S
+    (S (S (S (S (S (S O))))))))))) :: []))))) :: ((TSeq (TU (S (S (S (S (S (S
+    (S (S O)))))))))) :: (TUnit :: ((TOpt (TSeq (TTuple ((TSeq (TTuple
+    ((TTuple ((TSeq (TTuple ((TArr ((S (S (S (S (S (S (S (S O)))))))), (TU (S
+    (S (S (S (S (S (S (S O))))))))))) :: []))) :: ((TU (S (S (S (S (S (S (S
+    (S O))))))))) :: ((TU (S (S (S (S (S (S (S (S
+    O))))))))) :: [])))) :: ((TSeq (TU (S (S (S (S (S (S (S (S
+    O)))))))))) :: ((TArr ((S (S O)), (TSeq (TU (S (S (S (S (S (S (S (S
+    O)))))))))))) :: []))))) :: ((TU (S (S (S (S (S (S (S (S
+    O))))))))) :: []))))) :: []))))))))
+
+(** val schema_31 : ty **)
+
+let schema_31 =
+  TTuple ((TU (S (S (S (S (S (S (S (S O))))))))) :: ((TU (S (S (S (S (S (S (S
+    (S O))))))))) :: ((TSeq (TTuple ((TU (S (S (S (S O))))) :: ((TU (S (S (S
+    (S O))))) :: [])))) :: ((TSeq (TSeq (TTuple ((TU (S (S (S (S
+    O))))) :: ((TU (S (S O))) :: []))))) :: ((TSeq (TTuple ((TTuple ((TSeq
+    (TTuple ((TArr ((S (S (S (S O)))), (TU (S (S (S (S (S (S (S (S (S (S (S
+    (S (S (S (S (S O))))))))))))))))))) :: []))) :: ((TU (S (S (S (S (S (S (S
+    (S O))))))))) :: []))) :: ((TTuple ((TSeq (TTuple ((TArr ((S (S (S (S
+    O)))), (TU (S (S (S (S (S (S (S (S (S (S (S (S (S (S (S (S
+    O))))))))))))))))))) :: []))) :: ((TArr ((S (S (S (S O)))), (TSeq (TU (S
+    (S (S (S O)))))))) :: []))) :: ((TArr ((S (S (S (S (S O))))), (TU (S (S
+    (S (S (S (S (S (S O))))))))))) :: []))))) :: ((TSeq (TU (S (S (S (S (S (S
+    (S (S O)))))))))) :: (TUnit :: ((TOpt (TSeq (TTuple ((TSeq (TTuple
+    ((TTuple ((TSeq (TTuple ((TArr ((S (S (S (S (S (S (S (S O)))))))), (TU (S
+    (S (S (S (S (S (S (S O))))))))))) :: []))) :: ((TU (S (S (S (S (S (S (S
+    (S O))))))))) :: ((TU (S (S (S (S (S (S (S (S
+    O))))))))) :: [])))) :: ((TSeq (TU (S (S (S (S (S (S (S (S
+    O)))))))))) :: ((TArr ((S (S O)), (TSeq (TU (S (S (S (S (S (S (S (S
+    O)))))))))))) :: []))))) :: ((TU (S (S (S (S (S (S (S (S
+    O))))))))) :: []))))) :: []))))))))
+
+(** val schema_32 : ty **)
+
+let schema_32 =
+  TTuple ((TU (S (S (S (S (S (S (S (S O))))))))) :: ((TU (S (S (S (S (S (S (S
+    (S O))))))))) :: ((TSeq (TTuple ((TU (S (S (S (S O))))) :: ((TU (S (S (S
+    (S O))))) :: [])))) :: ((TSeq (TSeq (TTuple ((TU (S (S (S (S
+    O))))) :: ((TU (S (S (S (S O))))) :: []))))) :: ((TSeq (TTuple ((TTuple
+    ((TSeq (TTuple ((TArr ((S (S (S (S O)))), (TU (S (S (S (S (S (S (S (S (S
+    (S (S (S (S (S (S (S O))))))))))))))))))) :: []))) :: ((TU (S (S (S (S (S
+    (S (S (S O))))))))) :: []))) :: ((TTuple ((TSeq (TTuple ((TArr ((S (S (S
+    (S O)))), (TU (S (S (S (S (S (S (S (S (S (S (S (S (S (S (S (S
+    O))))))))))))))))))) :: []))) :: ((TArr ((S (S (S (S O)))), (TSeq (TU (S
+    (S (S (S O)))))))) :: []))) :: ((TArr ((S (S (S (S (S O))))), (TU (S (S
+    (S (S (S (S (S (S O))))))))))) :: []))))) :: ((TSeq (TU (S (S (S (S (S (S
+    (S (S O)))))))))) :: (TUnit :: ((TOpt (TSeq (TTuple ((TSeq (TTuple
+    ((TTuple ((TSeq (TTuple ((TArr ((S (S (S (S (S (S (S (S O)))))))), (TU (S
+    (S (S (S (S (S (S (S O))))))))))) :: []))) :: ((TU (S (S (S (S (S (S (S
+    (S O))))))))) :: ((TU (S (S (S (S (S (S (S (S
+    O))))))))) :: [])))) :: ((TSeq (TU (S (S (S (S (S (S (S (S
+    O)))))))))) :: ((TArr ((S (S O)), (TSeq (TU (S (S (S (S (S (S (S (S
+    O)))))))))))) :: []))))) :: ((TU (S (S (S (S (S (S (S (S
+    O))))))))) :: []))))) :: []))))))))
+
+(** val schema_33 : ty **)
+
+let schema_33 =
+  TTuple ((TU (S (S (S (S (S (S (S (S O))))))))) :: ((TU (S (S (S (S (S (S (S
+    (S O))))))))) :: ((TSeq (TTuple ((TU (S (S (S (S O))))) :: ((TU (S (S (S
+    (S O))))) :: [])))) :: ((TSeq (TSeq (TTuple ((TU (S (S (S (S
+    O))))) :: ((TU (S (S (S (S (S (S (S (S O))))))))) :: []))))) :: ((TSeq
+    (TTuple ((TTuple ((TSeq (TTuple ((TArr ((S (S (S (S O)))), (TU (S (S (S
+    (S (S (S (S (S (S (S (S (S (S (S (S (S
+    O))))))))))))))))))) :: []))) :: ((TU (S (S (S (S (S (S (S (S
+    O))))))))) :: []))) :: ((TTuple ((TSeq (TTuple ((TArr ((S (S (S (S O)))),
+    (TU (S (S (S (S (S (S (S (S (S (S (S (S (S (S (S (S
+    O))))))))))))))))))) :: []))) :: ((TArr ((S (S (S (S O)))), (TSeq (TU (S
+    (S (S (S O)))))))) :: []))) :: ((TArr ((S (S (S (S (S O))))), (TU (S (S
+    (S (S (S (S (S (S O))))))))))) :: []))))) :: ((TSeq (TU (S (S (S (S (S (S
+    (S (S O)))))))))) :: (TUnit :: ((TOpt (TSeq (TTuple ((TSeq (TTuple
+    ((TTuple ((TSeq (TTuple ((TArr ((S (S (S (S (S (S (S (S O)))))))), (TU (S
+    (S (S (S (S (S (S (S O))))))))))) :: []))) :: ((TU (S (S (S (S (S (S (S
+    (S O))))))))) :: ((TU (S (S (S (S (S (S (S (S
+    O))))))))) :: [])))) :: ((TSeq (TU (S (S (S (S (S (S (S (S
+    O)))))))))) :: ((TArr ((S (S O)), (TSeq (TU (S (S (S (S (S (S (S (S
+    O)))))))))))) :: []))))) :: ((TU (S (S (S (S (S (S (S (S
+    O))))))))) :: []))))) :: []))))))))
+
+(** val schema_34 : ty **)
+
+let schema_34 =
+  TTuple ((TU (S (S (S (S (S (S (S (S O))))))))) :: ((TU (S (S (S (S (S (S (S
+    (S O))))))))) :: ((TSeq (TTuple ((TU (S (S (S (S O))))) :: ((TU (S (S (S
+    (S O))))) :: [])))) :: ((TSeq (TSeq (TTuple ((TU (S (S (S (S
+    O))))) :: ((TU (S (S (S (S (S (S (S (S O))))))))) :: []))))) :: ((TSeq
+    (TTuple ((TTuple ((TSeq (TTuple ((TArr ((S (S (S (S O)))), (TU (S (S (S
+    (S (S (S (S (S (S (S (S (S (S (S (S (S
+    O))))))))))))))))))) :: []))) :: ((TU (S (S (S (S (S (S (S (S
+    O))))))))) :: []))) :: ((TTuple ((TSeq (TTuple ((TArr ((S (S (S (S O)))),
+    (TU (S (S (S (S (S (S (S (S (S (S (S (S (S (S (S (S
+    O))))))))))))))))))) :: []))) :: ((TArr ((S (S (S (S O)))), (TSeq (TU (S
+    (S (S (S O)))))))) :: []))) :: ((TArr ((S (S (S (S (S O))))), (TU (S (S
+    (S (S (S (S (S (S O))))))))))) :: []))))) :: ((TSeq (TU (S (S (S (S (S (S
+    (S (S O)))))))))) :: (TUnit :: ((TOpt (TSeq (TTuple ((TSeq (TTuple
+    ((TTuple ((TSeq (TTuple ((TArr ((S (S (S (S (S (S (S (S O)))))))), (TU (S
+    (S (S (S (S (S (S (S O))))))))))) :: []))) :: ((TU (S (S (S (S (S (S (S
+    (S O))))))))) :: ((TU (S (S (S (S (S (S (S (S
+    O))))))))) :: [])))) :: ((TSeq (TU (S (S (S (S (S (S (S (S
+    O)))))))))) :: ((TArr ((S (S O)), (TSeq (TU (S (S (S (S (S (S (S (S
+    O)))))))))))) :: []))))) :: ((TU (S (S (S (S (S (S (S (S
+    O))))))))) :: []))))) :: []))))))))
+
+(** val schema_35 : ty **)
+
+let schema_35 =
+  TTuple ((TU (S (S (S (S (S (S (S (S O))))))))) :: ((TU (S (S (S (S (S (S (S
+    (S O))))))))) :: ((TSeq (TTuple ((TU (S (S (S (S O))))) :: ((TU (S (S (S
+    (S O))))) :: [])))) :: ((TSeq (TSeq (TTuple ((TU (S (S (S (S
+    O))))) :: ((TU (S (S (S (S (S (S (S (S (S (S (S (S (S (S (S (S
+    O))))))))))))))))) :: []))))) :: ((TSeq (TTuple ((TTuple ((TSeq (TTuple
+    ((TArr ((S (S (S (S O)))), (TU (S (S (S (S (S (S (S (S (S (S (S (S (S (S
+    (S (S O))))))))))))))))))) :: []))) :: ((TU (S (S (S (S (S (S (S (S
+    O))))))))) :: []))) :: ((TTuple ((TSeq (TTuple ((TArr ((S (S (S (S O)))),
+    (TU (S (S (S (S (S (S (S (S (S (S (S (S (S (S (S (S
+    O))))))))))))))))))) :: []))) :: ((TArr ((S (S (S (S O)))), (TSeq (TU (S
+    (S (S (S O)))))))) :: []))) :: ((TArr ((S (S (S (S (S O))))), (TU (S (S
+    (S (S (S (S (S (S O))))))))))) :: []))))) :: ((TSeq (TU (S (S (S (S (S (S
+    (S (S O)))))))))) :: (TUnit :: ((TOpt (TSeq (TTuple ((TSeq (TTuple
+    ((TTuple ((TSeq (TTuple ((TArr ((S (S (S (S (S (S (S (S O)))))))), (TU (S
+    (S (S (S (S (S (S (S O))))))))))) :: []))) :: ((TU (S (S (S (S (S (S (S
+    (S O))))))))) :: ((TU (S (S (S (S (S (S (S (S
+    O))))))))) :: [])))) :: ((TSeq (TU (S (S (S (S (S (S (S (S
+    O)))))))))) :: ((TArr ((S (S O)), (TSeq (TU (S (S (S (S (S (S (S (S
+    O)))))))))))) :: []))))) :: ((TU (S (S (S (S (S (S (S (S
+    O))))))))) :: []))))) :: []))))))))
+
+(** val schema_36 : ty **)
+
+let schema_36 =
+  TTuple ((TU (S (S (S (S (S (S (S (S O))))))))) :: ((TU (S (S (S (S (S (S (S
+    (S O))))))))) :: ((TSeq (TTuple ((TU (S (S (S (S O))))) :: ((TU (S (S (S
+    (S O))))) :: [])))) :: ((TSeq (TSeq (TTuple ((TU (S (S (S (S
+    O))))) :: ((TU (S O)) :: []))))) :: ((TSeq (TTuple ((TTuple ((TSeq
+    (TTuple ((TArr ((S (S (S (S O)))), (TU (S (S (S (S (S (S (S (S (S (S (S
+    (S (S (S (S (S O))))))))))))))))))) :: []))) :: ((TU (S (S (S (S (S (S (S
+    (S O))))))))) :: []))) :: ((TTuple ((TSeq (TTuple ((TArr ((S (S (S (S
+    O)))), (TU (S (S (S (S (S (S (S (S (S (S (S (S (S (S (S (S
+    O))))))))))))))))))) :: []))) :: ((TArr ((S (S (S (S O)))), (TSeq (TU (S
+    (S (S (S O)))))))) :: []))) :: ((TArr ((S (S (S (S (S O))))), (TU (S (S
+    (S (S (S (S (S (S O))))))))))) :: []))))) :: ((TSeq (TU (S (S (S (S (S (S
+    (S (S O)))))))))) :: (TUnit :: ((TOpt (TSeq (TTuple ((TSeq (TTuple
+    ((TTuple ((TSeq (TTuple ((TArr ((S (S (S (S (S (S (S (S O)))))))), (TU (S
+    (S (S (S (S (S (S (S O))))))))))) :: []))) :: ((TU (S (S (S (S (S (S (S
+    (S O))))))))) :: ((TU (S (S (S (S (S (S (S (S
+    O))))))))) :: [])))) :: ((TSeq (TU (S (S (S (S (S (S (S (S
+    O)))))))))) :: ((TArr ((S (S O)), (TSeq (TU (S (S (S (S (S (S (S (S
+    O)))))))))))) :: []))))) :: ((TU (S (S (S (S (S (S (S (S
+    O))))))))) :: []))))) :: []))))))))
+
+(** val schema_37 : ty **)
+
+let schema_37 =
+  TTuple ((TU (S (S (S (S (S (S (S (S O))))))))) :: ((TU (S (S (S (S (S (S (S
+    (S O))))))))) :: ((TSeq (TTuple ((TU (S (S (S (S O))))) :: ((TU (S (S (S
+    (S O))))) :: [])))) :: ((TSeq (TSeq (TTuple ((TU (S (S (S (S
+    O))))) :: ((TU (S (S O))) :: []))))) :: ((TSeq (TTuple ((TTuple ((TSeq
+    (TTuple ((TArr ((S (S (S (S O)))), (TU (S (S (S (S (S (S (S (S (S (S (S
+    (S (S (S (S (S O))))))))))))))))))) :: []))) :: ((TU (S (S (S (S (S (S (S
+    (S O))))))))) :: []))) :: ((TTuple ((TSeq (TTuple ((TArr ((S (S (S (S
+    O)))), (TU (S (S (S (S (S (S (S (S (S (S (S (S (S (S (S (S
+    O))))))))))))))))))) :: []))) :: ((TArr ((S (S (S (S O)))), (TSeq (TU (S
+    (S (S (S O)))))))) :: []))) :: ((TArr ((S (S (S (S (S O))))), (TU (S (S
+    (S (S (S (S (S (S O))))))))))) :: []))))) :: ((TSeq (TU (S (S (S (S (S (S
+    (S (S O)))))))))) :: (TUnit :: ((TOpt (TSeq (TTuple ((TSeq (TTuple
+    ((TTuple ((TSeq (TTuple ((TArr ((S (S (S (S (S (S (S (S O)))))))), (TU (S
+    (S (S (S (S (S (S (S O))))))))))) :: []))) :: ((TU (S (S (S (S (S (S (S
+    (S O))))))))) :: ((TU (S (S (S (S (S (S (S (S
+    O))))))))) :: [])))) :: ((TSeq (TU (S (S (S (S (S (S (S (S
+    O)))))))))) :: ((TArr ((S (S O)), (TSeq (TU (S (S (S (S (S (S (S (S
+    O)))))))))))) :: []))))) :: ((TU (S (S (S (S (S (S (S (S
+    O))))))))) :: []))))) :: []))))))))
+
+(** val schema_38 : ty **)
+
+let schema_38 =
+  TTuple ((TU (S (S (S (S (S (S (S (S O))))))))) :: ((TU (S (S (S (S (S (S (S
+    (S O))))))))) :: ((TSeq (TTuple ((TU (S (S (S (S O))))) :: ((TU (S (S (S
+    (S O))))) :: [])))) :: ((TSeq (TSeq (TTuple ((TU (S (S (S (S
+    O))))) :: ((TU (S (S (S (S O))))) :: []))))) :: ((TSeq (TTuple ((TTuple
+    ((TSeq (TTuple ((TArr ((S (S (S (S O)))), (TU (S (S (S (S (S (S (S (S (S
+    (S (S (S (S (S (S (S O))))))))))))))))))) :: []))) :: ((TU (S (S (S (S (S
+    (S (S (S O))))))))) :: []))) :: ((TTuple ((TSeq (TTuple ((TArr ((S (S (S
+    (S O)))), (TU (S (S (S (S (S (S (S (S (S (S (S (S (S (S (S (S
+    O))))))))))))))))))) :: []))) :: ((TArr ((S (S (S (S O)))), (TSeq (TU (S
+    (S (S (S O)))))))) :: []))) :: ((TArr ((S (S (S (S (S O))))), (TU (S (S
+    (S (S (S (S (S (S O))))))))))) :: []))))) :: ((TSeq (TU (S (S (S (S (S (S
+    (S (S O)))))))))) :: (TUnit :: ((TOpt (TSeq (TTuple ((TSeq (TTuple
+    ((TTuple ((TSeq (TTuple ((TArr ((S (S (S (S (S (S (S (S O)))))))), (TU (S
+    (S (S (S (S (S (S (S O))))))))))) :: []))) :: ((TU (S (S (S (S (S (S (S
+    (S O))))))))) :: ((TU (S (S (S (S (S (S (S (S
+    O))))))))) :: [])))) :: ((TSeq (TU (S (S (S (S (S (S (S (S
+    O)))))))))) :: ((TArr ((S (S O)), (TSeq (TU (S (S (S (S (S (S (S (S
+    O)))))))))))) :: []))))) :: ((TU (S (S (S (S (S (S (S (S
+    O))))))))) :: []))))) :: []))))))))
+
+(** val schema_39 : ty **)
+
+let schema_39 =
+  TTuple ((TU (S (S (S (S (S (S (S (S O))))))))) :: ((TU (S (S (S (S (S (S (S
+    (S O))))))))) :: ((TSeq (TTuple ((TU (S (S (S (S O))))) :: ((TU (S (S (S
+    (S O))))) :: [])))) :: ((TSeq (TSeq (TTuple ((TU (S (S (S (S
+    O))))) :: ((TU (S (S (S (S (S (S (S (S O))))))))) :: []))))) :: ((TSeq
+    (TTuple ((TTuple ((TSeq (TTuple ((TArr ((S (S (S (S O)))), (TU (S (S (S
+    (S (S (S (S (S (S (S (S (S (S (S (S (S
+    O))))))))))))))))))) :: []))) :: ((TU (S (S (S (S (S (S (S (S
+    O))))))))) :: []))) :: ((TTuple ((TSeq (TTuple ((TArr ((S (S (S (S O)))),
+    (TU (S (S (S (S (S (S (S (S (S (S (S (S (S (S (S (S
+    O))))))))))))))))))) :: []))) :: ((TArr ((S (S (S (S O)))), (TSeq (TU (S
+    (S (S (S O)))))))) :: []))) :: ((TArr ((S (S (S (S (S O))))), (TU (S (S
+    (S (S (S (S (S (S O))))))))))) :: []))))) :: ((TSeq (TU (S (S (S (S (S (S
+    (S (S O)))))))))) :: (TUnit :: ((TOpt (TSeq (TTuple ((TSeq (TTuple
+    ((TTuple ((TSeq (TTuple ((TArr ((S (S (S (S (S (S (S (S O)))))))), (TU (S
+    (S (S (S (S (S (S (S O))))))))))) :: []))) :: ((TU (S (S (S (S (S (S (S
+    (S O))))))))) :: ((TU (S (S (S (S (S (S (S (S
+    O))))))))) :: [])))) :: ((TSeq (TU (S (S (S (S (S (S (S (S
+    O)))))))))) :: ((TArr ((S (S O)), (TSeq (TU (S (S (S (S (S (S (S (S
+    O)))))))))))) :: []))))) :: ((TU (S (S (S (S (S (S (S (S
+    O))))))))) :: []))))) :: []))))))))
+
+(** val schema_40 : ty **)
+
+let schema_40 =
+  TTuple ((TU (S (S (S (S (S (S (S (S O))))))))) :: ((TU (S (S (S (S (S (S (S
+    (S O))))))))) :: ((TSeq (TTuple ((TU (S (S (S (S O))))) :: ((TU (S (S (S
+    (S O))))) :: [])))) :: ((TSeq (TSeq (TTuple ((TU (S (S (S (S
+    O))))) :: ((TU (S (S (S (S (S (S (S (S O))))))))) :: []))))) :: ((TSeq
+    (TTuple ((TTuple ((TSeq (TTuple ((TArr ((S (S (S (S O)))), (TU (S (S (S
+    (S (S (S (S (S (S (S (S (S (S (S (S (S
+    O))))))))))))))))))) :: []))) :: ((TU (S (S (S (S (S (S (S (S
+    O))))))))) :: []))) :: ((TTuple ((TSeq (TTuple ((TArr ((S (S (S (S O)))),
+    (TU (S (S (S (S (S (S (S (S (S (S (S (S (S (S (S (S
+    O))))))))))))))))))) :: []))) :: ((TArr ((S (S (S (S O)))), (TSeq (TU (S
+    (S (S (S O)))))))) :: []))) :: ((TArr ((S (S (S (S (S O))))), (TU (S (S
+    (S (S (S (S (S (S O))))))))))) :: []))))) :: ((TSeq (TU (S (S (S (S (S (S
+    (S (S O)))))))))) :: (TUnit :: ((TOpt (TSeq (TTuple ((TSeq (TTuple
+    ((TTuple ((TSeq (TTuple ((TArr ((S (S (S (S (S (S (S (S O)))))))), (TU (S
+    (S (S (S (S (S (S (S O))))))))))) :: []))) :: ((TU (S (S (S (S (S (S (S
+    (S O))))))))) :: ((TU (S (S (S (S (S (S (S (S
+    O))))))))) :: [])))) :: ((TSeq (TU (S (S (S (S (S (S (S (S
+    O)))))))))) :: ((TArr ((S (S O)), (TSeq (TU (S (S (S (S (S (S (S (S
+    O)))))))))))) :: []))))) :: ((TU (S (S (S (S (S (S (S (S
+    O))))))))) :: []))))) :: []))))))))
+
+(** val schema_41 : ty **)
+
+let schema_41 =
+  TTuple ((TU (S (S (S (S (S (S (S (S O))))))))) :: ((TU (S (S (S (S (S (S (S
+    (S O))))))))) :: ((TSeq (TTuple ((TU (S (S (S (S O))))) :: ((TU (S (S (S
+    (S O))))) :: [])))) :: ((TSeq (TSeq (TTuple ((TU (S (S (S (S
+    O))))) :: ((TU (S (S (S (S (S (S (S (S (S (S (S (S (S (S (S (S
+    O))))))))))))))))) :: []))))) :: ((TSeq (TTuple ((TTuple ((TSeq (TTuple
+    ((TArr ((S (S (S (S O)))), (TU (S (S (S (S (S (S (S (S (S (S (S (S (S (S
+    (S (S O))))))))))))))))))) :: []))) :: ((TU (S (S (S (S (S (S (S (S
+    O))))))))) :: []))) :: ((TTuple ((TSeq (TTuple ((TArr ((S (S (S (S O)))),
+    (TU (S (S (S (S (S (S (S (S (S (S (S (S (S (S (S (S
+    O))))))))))))))))))) :: []))) :: ((TArr ((S (S (S (S O)))), (TSeq (TU (S
+    (S (S (S O)))))))) :: []))) :: ((TArr ((S (S (S (S (S O))))), (TU (S (S
+    (S (S (S (S (S (S O))))))))))) :: []))))) :: ((TSeq (TU (S (S (S (S (S (S
+    (S (S O)))))))))) :: (TUnit :: ((TOpt (TSeq (TTuple ((TSeq (TTuple
+    ((TTuple ((TSeq (TTuple ((TArr ((S (S (S (S (S (S (S (S O)))))))), (TU (S
+    (S (S (S (S (S (S (S O))))))))))) :: []))) :: ((TU (S (S (S (S (S (S (S
+    (S O))))))))) :: ((TU (S (S (S (S (S (S (S (S
+    O))))))))) :: [])))) :: ((TSeq (TU (S (S (S (S (S (S (S (S
+    O)))))))))) :: ((TArr ((S (S O)), (TSeq (TU (S (S (S (S (S (S (S (S
+    O)))))))))))) :: []))))) :: ((TU (S (S (S (S (S (S (S (S
+    O))))))))) :: []))))) :: []))))))))
+
+(** val schema_42 : ty **)
+
+let schema_42 =
+  TTuple ((TU (S (S (S (S (S (S (S (S O))))))))) :: ((TU (S (S (S (S (S (S (S
+    (S O))))))))) :: ((TSeq (TTuple ((TU (S (S (S (S O))))) :: ((TU (S (S (S
+    (S O))))) :: [])))) :: ((TSeq (TSeq (TTuple ((TU (S (S (S (S
+    O))))) :: ((TU (S O)) :: []))))) :: ((TSeq (TTuple ((TTuple ((TSeq
+    (TTuple ((TArr ((S (S (S (S O)))), (TU (S (S (S (S (S (S (S (S (S (S (S
+    (S (S (S (S (S O))))))))))))))))))) :: []))) :: ((TU (S (S (S (S (S (S (S
+    (S O))))))))) :: []))) :: ((TTuple ((TSeq (TTuple ((TArr ((S (S (S (S
+    O)))), (TU (S (S (S (S (S (S (S (S (S (S (S (S (S (S (S (S
+    O))))))))))))))))))) :: []))) :: ((TArr ((S (S (S (S O)))), (TSeq (TU (S
+    (S (S (S O)))))))) :: []))) :: ((TArr ((S (S (S (S (S O))))), (TU (S (S
+    (S (S (S (S (S (S O))))))))))) :: []))))) :: ((TSeq (TU (S (S (S (S (S (S
+    (S (S O)))))))))) :: (TUnit :: ((TOpt (TSeq (TTuple ((TSeq (TTuple
+    ((TTuple ((TSeq (TTuple ((TArr ((S (S (S (S (S (S (S (S O)))))))), (TU (S
+    (S (S (S (S (S (S (S O))))))))))) :: []))) :: ((TU (S (S (S (S (S (S (S
+    (S O))))))))) :: ((TU (S (S (S (S (S (S (S (S
+    O))))))))) :: [])))) :: ((TSeq (TU (S (S (S (S (S (S (S (S
+    O)))))))))) :: ((TArr ((S (S O)), (TSeq (TU (S (S (S (S (S (S (S (S
+    O)))))))))))) :: []))))) :: ((TU (S (S (S (S (S (S (S (S
+    O))))))))) :: []))))) :: []))))))))
+
+(** val schema_43 : ty **)
+
+let schema_43 =
+  TTuple ((TU (S (S (S (S (S (S (S (S O))))))))) :: ((TU (S (S (S (S (S (S (S
+    (S O))))))))) :: ((TSeq (TTuple ((TU (S (S (S (S O))))) :: ((TU (S (S (S
+    (S O))))) :: [])))) :: ((TSeq (TSeq (TTuple ((TU (S (S (S (S
+    O))))) :: ((TU (S (S O))) :: []))))) :: ((TSeq (TTuple ((TTuple ((TSeq
+    (TTuple ((TArr ((S (S (S (S O)))), (TU (S (S (S (S (S (S (S (S (S (S (S
+    (S (S (S (S (S O))))))))))))))))))) :: []))) :: ((TU (S (S (S (S (S (S (S
+    (S O))))))))) :: []))) :: ((TTuple ((TSeq (TTuple ((TArr ((S (S (S (S
+    O)))), (TU (S (S (S (S (S (S (S (S (S (S (S (S (S (S (S (S
+    O))))))))))))))))))) :: []))) :: ((TArr ((S (S (S (S O)))), (TSeq (TU (S
+    (S (S (S O)))))))) :: []))) :: ((TArr ((S (S (S (S (S O))))), (TU (S (S
+    (S (S (S (S (S (S O))))))))))) :: []))))) :: ((TSeq (TU (S (S (S (S (S (S
+    (S (S O)))))))))) :: (TUnit :: ((TOpt (TSeq (TTuple ((TSeq (TTuple
+    ((TTuple ((TSeq (TTuple ((TArr ((S (S (S (S (S (S (S (S O)))))))), (TU (S
+    (S (S (S (S (S (S (S O))))))))))) :: []))) :: ((TU (S (S (S (S (S (S (S
+    (S O))))))))) :: ((TU (S (S (S (S (S (S (S (S
+    O))))))))) :: [])))) :: ((TSeq (TU (S (S (S (S (S (S (S (S
+    O)))))))))) :: ((TArr ((S (S O)), (TSeq (TU (S (S (S (S (S (S (S (S
+    O)))))))))))) :: []))))) :: ((TU (S (S (S (S (S (S (S (S
+    O))))))))) :: []))))) :: []))))))))
+
+(** val schema_44 : ty **)
+
+let schema_44 =
+  TTuple ((TU (S (S (S (S (S (S (S (S O))))))))) :: ((TU (S (S (S (S (S (S (S
+    (S O))))))))) :: ((TSeq (TTuple ((TU (S (S (S (S O))))) :: ((TU (S (S (S
+    (S O))))) :: [])))) :: ((TSeq (TSeq (TTuple ((TU (S (S (S (S
+    O))))) :: ((TU (S (S (S (S O))))) :: []))))) :: ((TSeq (TTuple ((TTuple
+    ((TSeq (TTuple ((TArr ((S (S (S (S O)))), (TU (S (S (S (S (S (S (S (S (S
+    (S (S (S (S (S (S (S O))))))))))))))))))) :: []))) :: ((TU (S (S (S (S (S
+    (S (S (S O))))))))) :: []))) :: ((TTuple ((TSeq (TTuple ((TArr ((S (S (S
+    (S O)))), (TU (S (S (S (S (S (S (S (S (S (S (S (S (S (S (S (S
+    O))))))))))))))))))) :: []))) :: ((TArr ((S (S (S (S O)))), (TSeq (TU (S
+    (S (S (S O)))))))) :: []))) :: ((TArr ((S (S (S (S (S O))))), (TU (S (S
+    (S (S (S (S (S (S O))))))))))) :: []))))) :: ((TSeq (TU (S (S (S (S (S (S
+    (S (S O)))))))))) :: (TUnit :: ((TOpt (TSeq (TTuple ((TSeq (TTuple
+    ((TTuple ((TSeq (TTuple ((TArr ((S (S (S (S (S (S (S (S O)))))))), (TU (S
+    (S (S (S (S (S (S (S O))))))))))) :: []))) :: ((TU (S (S (S (S (S (S (S
+    (S O))))))))) :: ((TU (S (S (S (S (S (S (S (S
+    O))))))))) :: [])))) :: ((TSeq (TU (S (S (S (S (S (S (S (S
+    O)))))))))) :: ((TArr ((S (S O)), (TSeq (TU (S (S (S (S (S (S (S (S
+    O)))))))))))) :: []))))) :: ((TU (S (S (S (S (S (S (S (S
+    O))))))))) :: []))))) :: []))))))))
+
+(** val schema_45 : ty **)
+
+let schema_45 =
+  TTuple ((TU (S (S (S (S (S (S (S (S O))))))))) :: ((TU (S (S (S (S (S (S (S
+    (S O))))))))) :: ((TSeq (TTuple ((TU (S (S (S (S O))))) :: ((TU (S (S (S
+    (S O))))) :: [])))) :: ((TSeq (TSeq (TTuple ((TU (S (S (S (S
+    O))))) :: ((TU (S (S (S (S (S (S (S (S O))))))))) :: []))))) :: ((TSeq
+    (TTuple ((TTuple ((TSeq (TTuple ((TArr ((S (S (S (S O)))), (TU (S (S (S
+    (S (S (S (S (S (S (S (S (S (S (S (S (S
+    O))))))))))))))))))) :: []))) :: ((TU (S (S (S (S (S (S (S (S
+    O))))))))) :: []))) :: ((TTuple ((TSeq (TTuple ((TArr ((S (S (S (S O)))),
+    (TU (S (S (S (S (S (S (S (S (S (S (S (S (S (S (S (S
+    O))))))))))))))))))) :: []))) :: ((TArr ((S (S (S (S O)))), (TSeq (TU (S
+    (S (S (S O)))))))) :: []))) :: ((TArr ((S (S (S (S (S O))))), (TU (S (S
+    (S (S (S (S (S (S O))))))))))) :: []))))) :: ((TSeq (TU (S (S (S (S (S (S
+    (S (S O)))))))))) :: (TUnit :: ((TOpt (TSeq (TTuple ((TSeq (TTuple
+    ((TTuple ((TSeq (TTuple ((TArr ((S (S (S (S (S (S (S (S O)))))))), (TU (S
+    (S (S (S (S (S (S (S O))))))))))) :: []))) :: ((TU (S (S (S (S (S (S (S
+    (S O))))))))) :: ((TU (S (S (S (S (S (S (S (S
+    O))))))))) :: [])))) :: ((TSeq (TU (S (S (S (S (S (S (S (S
+    O)))))))))) :: ((TArr ((S (S O)), (TSeq (TU (S (S (S (S (S (S (S (S
+    O)))))))))))) :: []))))) :: ((TU (S (S (S (S (S (S (S (S
+    O))))))))) :: []))))) :: []))))))))
+
+(** val schema_46 : ty **)
+
+let schema_46 =
+  TTuple ((TU (S (S (S (S (S (S (S (S O))))))))) :: ((TU (S (S (S (S (S (S (S
+    (S O))))))))) :: ((TSeq (TTuple ((TU (S (S (S (S O))))) :: ((TU (S (S (S
+    (S O))))) :: [])))) :: ((TSeq (TSeq (TTuple ((TU (S (S (S (S
+    O))))) :: ((TU (S (S (S (S (S (S (S (S O))))))))) :: []))))) :: ((TSeq
+    (TTuple ((TTuple ((TSeq (TTuple ((TArr ((S (S (S (S O)))), (TU (S (S (S
+    (S (S (S (S (S (S (S (S (S (S (S (S (S
+    O))))))))))))))))))) :: []))) :: ((TU (S (S (S (S (S (S (S (S
+    O))))))))) :: []))) :: ((TTuple ((TSeq (TTuple ((TArr ((S (S (S (S O)))),
+    (TU (S (S (S (S (S (S (S (S (S (S (S (S (S (S (S (S
+    O))))))))))))))))))) :: []))) :: ((TArr ((S (S (S (S O)))), (TSeq (TU (S
+    (S (S (S O)))))))) :: []))) :: ((TArr ((S (S (S (S (S O))))), (TU (S (S
+    (S (S (S (S (S (S O))))))))))) :: []))))) :: ((TSeq (TU (S (S (S (S (S (S
+    (S (S O)))))))))) :: (TUnit :: ((TOpt (TSeq (TTuple ((TSeq (TTuple
+    ((TTuple ((TSeq (TTuple ((TArr ((S (S (S (S (S (S (S (S O)))))))), (TU (S
+    (S (S (S (S (S (S (S O))))))))))) :: []))) :: ((TU (S (S (S (S (S (S (S
+    (S O))))))))) :: ((TU (S (S (S (S (S (S (S (S
+    O))))))))) :: [])))) :: ((TSeq (TU (S (S (S (S (S (S (S (S
+    O)))))))))) :: ((TArr ((S (S O)), (TSeq (TU (S (S (S (S (S (S (S (S
+    O)))))))))))) :: []))))) :: ((TU (S (S (S (S (S (S (S (S
+    O))))))))) :: []))))) :: []))))))))
+
+(** val schema_47 : ty **)
+
+let schema_47 =
+  TTuple ((TU (S (S (S (S (S (S (S (S O))))))))) :: ((TU (S (S (S (S (S (S (S
+    (S O))))))))) :: ((TSeq (TTuple ((TU (S (S (S (S O))))) :: ((TU (S (S (S
+    (S O))))) :: [])))) :: ((TSeq (TSeq (TTuple ((TU (S (S (S (S
+    O))))) :: ((TU (S (S (S (S (S (S (S (S (S (S (S (S (S (S (S (S
+    O))))))))))))))))) :: []))))) :: ((TSeq (TTuple ((TTuple ((TSeq (TTuple
+    ((TArr ((S (S (S (S O)))), (TU (S (S (S (S (S (S (S (S (S (S (S (S (S (S
+    (S (S O))))))))))))))))))) :: []))) :: ((TU (S (S (S (S (S (S (S (S
+    O))))))))) :: []))) :: ((TTuple ((TSeq (TTuple ((TArr ((S (S (S (S O)))),
+    (TU (S (S (S (S (S (S (S (S (S (S (S (S (S (S (S (S
+    O))))))))))))))))))) :: []))) :: ((TArr ((S (S (S (S O)))), (TSeq (TU (S
+    (S (S (S O)))))))) :: []))) :: ((TArr ((S (S (S (S (S O))))), (TU (S (S
+    (S (S (S (S (S (S O))))))))))) :: []))))) :: ((TSeq (TU (S (S (S (S (S (S
+    (S (S O)))))))))) :: (TUnit :: ((TOpt (TSeq (TTuple ((TSeq (TTuple
+    ((TTuple ((TSeq (TTuple ((TArr ((S (S (S (S (S (S (S (S O)))))))), (TU (S
+    (S (S (S (S (S (S (S O))))))))))) :: []))) :: ((TU (S (S (S (S (S (S (S
+    (S O))))))))) :: ((TU (S (S (S (S (S (S (S (S
+    O))))))))) :: [])))) :: ((TSeq (TU (S (S (S (S (S (S (S (S
+    O)))))))))) :: ((TArr ((S (S O)), (TSeq (TU (S (S (S (S (S (S (S (S
+    O)))))))))))) :: []))))) :: ((TU (S (S (S (S (S (S (S (S
+    O))))))))) :: []))))) :: []))))))))
+
+(** val schema_48 : ty **)
+
+let schema_48 =
+  TTuple ((TU (S (S (S (S (S (S (S (S O))))))))) :: ((TU (S (S (S (S (S (S (S
+    (S O))))))))) :: ((TOpt (TU (S O))) :: ((TOpt (TSeq (TTuple ((TU (S (S (S
+    (S O))))) :: ((TU (S (S (S (S O))))) :: []))))) :: ((TOpt (TSeq (TSeq
+    (TTuple ((TU (S (S (S (S O))))) :: ((TU (S O)) :: [])))))) :: ((TSeq
+    (TTuple ((TTuple ((TSeq (TTuple ((TArr ((S (S (S (S (S (S (S (S
+    O)))))))), (TU (S (S (S (S (S (S (S (S O))))))))))) :: []))) :: ((TU (S
+    (S (S (S (S (S (S (S O))))))))) :: ((TU (S (S (S (S (S (S (S (S
+    O))))))))) :: [])))) :: ((TSeq (TU (S (S (S (S (S (S (S (S (S (S (S (S (S
+    (S (S (S O)))))))))))))))))) :: ((TArr ((S (S O)), (TSeq (TU (S (S (S (S
+    (S (S (S (S O)))))))))))) :: ((TU (S (S (S (S (S (S (S (S
+    O))))))))) :: [])))))) :: ((TSeq (TU (S (S (S (S (S (S (S (S
+    O)))))))))) :: (TUnit :: []))))))))
+
+(** val schema_49 : ty **)
+
+let schema_49 =
+  TTuple ((TU (S (S (S (S (S (S (S (S O))))))))) :: ((TU (S (S (S (S (S (S (S
+    (S O))))))))) :: ((TOpt (TU (S (S O)))) :: ((TOpt (TSeq (TTuple ((TU (S
+    (S (S (S O))))) :: ((TU (S (S (S (S O))))) :: []))))) :: ((TOpt (TSeq
+    (TSeq (TTuple ((TU (S (S (S (S O))))) :: ((TU (S (S
+    O))) :: [])))))) :: ((TSeq (TTuple ((TTuple ((TSeq (TTuple ((TArr ((S (S
+    (S (S (S (S (S (S O)))))))), (TU (S (S (S (S (S (S (S (S
+    O))))))))))) :: []))) :: ((TU (S (S (S (S (S (S (S (S O))))))))) :: ((TU
+    (S (S (S (S (S (S (S (S O))))))))) :: [])))) :: ((TSeq (TU (S (S (S (S (S
+    (S (S (S (S (S (S (S (S (S (S (S O)))))))))))))))))) :: ((TArr ((S (S
+    O)), (TSeq (TU (S (S (S (S (S (S (S (S O)))))))))))) :: ((TU (S (S (S (S
+    (S (S (S (S O))))))))) :: [])))))) :: ((TSeq (TU (S (S (S (S (S (S (S (S
+    O)))))))))) :: (TUnit :: []))))))))
+
+(** val schema_50 : ty **)
+
+let schema_50 =
+  TTuple ((TU (S (S (S (S (S (S (S (S O))))))))) :: ((TU (S (S (S (S (S (S (S
+    (S O))))))))) :: ((TOpt (TU (S (S (S (S O)))))) :: ((TOpt (TSeq (TTuple
+    ((TU (S (S (S (S O))))) :: ((TU (S (S (S (S O))))) :: []))))) :: ((TOpt
+    (TSeq (TSeq (TTuple ((TU (S (S (S (S O))))) :: ((TU (S (S (S (S
+    O))))) :: [])))))) :: ((TSeq (TTuple ((TTuple ((TSeq (TTuple ((TArr ((S
+    (S (S (S (S (S (S (S O)))))))), (TU (S (S (S (S (S (S (S (S
+    O))))))))))) :: []))) :: ((TU (S (S (S (S (S (S (S (S O))))))))) :: ((TU
+    (S (S (S (S (S (S (S (S O))))))))) :: [])))) :: ((TSeq (TU (S (S (S (S (S
+    (S (S (S (S (S (S (S (S (S (S (S O)))))))))))))))))) :: ((TArr ((S (S
+    O)), (TSeq (TU (S (S (S (S (S (S (S (S O)))))))))))) :: ((TU (S (S (S (S
+    (S (S (S (S O))))))))) :: [])))))) :: ((TSeq (TU (S (S (S (S (S (S (S (S
+    O)))))))))) :: (TUnit :: []))))))))
+
+(** val schema_51 : ty **)
+
+let schema_51 =
+  TTuple ((TU (S (S (S (S (S (S (S (S O))))))))) :: ((TU (S (S (S (S (S (S (S
+    (S O))))))))) :: ((TOpt (TU (S (S (S (S (S (S (S (S O)))))))))) :: ((TOpt
+    (TSeq (TTuple ((TU (S (S (S (S O))))) :: ((TU (S (S (S (S
+    O))))) :: []))))) :: ((TOpt (TSeq (TSeq (TTuple ((TU (S (S (S (S
+    O))))) :: ((TU (S (S (S (S (S (S (S (S O))))))))) :: [])))))) :: ((TSeq
+    (TTuple ((TTuple ((TSeq (TTuple ((TArr ((S (S (S (S (S (S (S (S
+    O)))))))), (TU (S (S (S (S (S (S (S (S O))))))))))) :: []))) :: ((TU (S
+    (S (S (S (S (S (S (S O))))))))) :: ((TU (S (S (S (S (S (S (S (S
+    O))))))))) :: [])))) :: ((TSeq (TU (S (S (S (S (S (S (S (S (S (S (S (S (S
+    (S (S (S O)))))))))))))))))) :: ((TArr ((S (S O)), (TSeq (TU (S (S (S (S
+    (S (S (S (S O)))))))))))) :: ((TU (S (S (S (S (S (S (S (S
+    O))))))))) :: [])))))) :: ((TSeq (TU (S (S (S (S (S (S (S (S
+    O)))))))))) :: (TUnit :: []))))))))
+
+(** val schema_52 : ty **)
+
+let schema_52 =
+  TTuple ((TU (S (S (S (S (S (S (S (S O))))))))) :: ((TU (S (S (S (S (S (S (S
+    (S O))))))))) :: ((TOpt (TU (S (S (S (S (S (S (S (S O)))))))))) :: ((TOpt
+    (TSeq (TTuple ((TU (S (S (S (S O))))) :: ((TU (S (S (S (S
+    O))))) :: []))))) :: ((TOpt (TSeq (TSeq (TTuple ((TU (S (S (S (S
+    O))))) :: ((TU (S (S (S (S (S (S (S (S O))))))))) :: [])))))) :: ((TSeq
+    (TTuple ((TTuple ((TSeq (TTuple ((TArr ((S (S (S (S (S (S (S (S
+    O)))))))), (TU (S (S (S (S (S (S (S (S O))))))))))) :: []))) :: ((TU (S
+    (S (S (S (S (S (S (S O))))))))) :: ((TU (S (S (S (S (S (S (S (S
+    O))))))))) :: [])))) :: ((TSeq (TU (S (S (S (S (S (S (S (S (S (S (S (S (S
+    (S (S (S O)))))))))))))))))) :: ((TArr ((S (S O)), (TSeq (TU (S (S (S (S
+    (S (S (S (S O)))))))))))) :: ((TU (S (S (S (S (S (S (S (S
+    O))))))))) :: [])))))) :: ((TSeq (TU (S (S (S (S (S (S (S (S
+    O)))))))))) :: (TUnit :: []))))))))
+
+(** val schema_53 : ty **)
+
+let schema_53 =
+  TTuple ((TU (S (S (S (S (S (S (S (S O))))))))) :: ((TU (S (S (S (S (S (S (S
+    (S O))))))))) :: ((TOpt (TU (S (S (S (S (S (S (S (S (S (S (S (S (S (S (S
+    (S O)))))))))))))))))) :: ((TOpt (TSeq (TTuple ((TU (S (S (S (S
+    O))))) :: ((TU (S (S (S (S O))))) :: []))))) :: ((TOpt (TSeq (TSeq
+    (TTuple ((TU (S (S (S (S O))))) :: ((TU (S (S (S (S (S (S (S (S (S (S (S
+    (S (S (S (S (S O))))))))))))))))) :: [])))))) :: ((TSeq (TTuple ((TTuple
+    ((TSeq (TTuple ((TArr ((S (S (S (S (S (S (S (S O)))))))), (TU (S (S (S (S
+    (S (S (S (S O))))))))))) :: []))) :: ((TU (S (S (S (S (S (S (S (S
+    O))))))))) :: ((TU (S (S (S (S (S (S (S (S O))))))))) :: [])))) :: ((TSeq
+    (TU (S (S (S (S (S (S (S (S (S (S (S (S (S (S (S (S
+    O)))))))))))))))))) :: ((TArr ((S (S O)), (TSeq (TU (S (S (S (S (S (S (S
+    (S O)))))))))))) :: ((TU (S (S (S (S (S (S (S (S
+    O))))))))) :: [])))))) :: ((TSeq (TU (S (S (S (S (S (S (S (S
+    O)))))))))) :: (TUnit :: []))))))))
+
+(** val schema_54 : ty **)
+
+let schema_54 =
+  TTuple ((TU (S (S (S (S (S (S (S (S O))))))))) :: ((TU (S (S (S (S (S (S (S
+    (S O))))))))) :: ((TOpt (TU (S O))) :: ((TOpt (TSeq (TTuple ((TU (S (S (S
+    (S O))))) :: ((TU (S (S (S (S O))))) :: []))))) :: ((TOpt (TSeq (TSeq
+    (TTuple ((TU (S (S (S (S O))))) :: ((TU (S O)) :: [])))))) :: ((TSeq
+    (TTuple ((TTuple ((TSeq (TTuple ((TArr ((S (S (S (S (S (S (S (S
+    O)))))))), (TU (S (S (S (S (S (S (S (S O))))))))))) :: []))) :: ((TU (S
+    (S (S (S (S (S (S (S O))))))))) :: ((TU (S (S (S (S (S (S (S (S
+    O))))))))) :: [])))) :: ((TSeq (TU (S (S (S (S (S (S (S (S (S (S (S (S (S
+    (S (S (S O)))))))))))))))))) :: ((TArr ((S (S O)), (TSeq (TU (S (S (S (S
+    (S (S (S (S O)))))))))))) :: ((TU (S (S (S (S (S (S (S (S
+    O))))))))) :: [])))))) :: ((TSeq (TU (S (S (S (S (S (S (S (S
+    O)))))))))) :: (TUnit :: []))))))))
+
+(** val schema_55 : ty **)
+
+let schema_55 =
+  TTuple ((TU (S (S (S (S (S (S (S (S O))))))))) :: ((TU (S (S (S (S (S (S (S
+    (S O))))))))) :: ((TOpt (TU (S (S O)))) :: ((TOpt (TSeq (TTuple ((TU (S
+    (S (S (S O))))) :: ((TU (S (S (S (S O))))) :: []))))) :: ((TOpt (TSeq
+    (TSeq (TTuple ((TU (S (S (S (S O))))) :: ((TU (S (S
+    O))) :: [])))))) :: ((TSeq (TTuple ((TTuple ((TSeq (TTuple ((TArr ((S (S
+    (S (S (S (S (S (S O)))))))), (TU (S (S (S (S (S (S (S (S
+    O))))))))))) :: []))) :: ((TU (S (S (S (S (S (S (S (S O))))))))) :: ((TU
+    (S (S (S (S (S (S (S (S O))))))))) :: [])))) :: ((TSeq (TU (S (S (S (S (S
+    (S (S (S (S (S (S (S (S (S (S (S O)))))))))))))))))) :: ((TArr ((S (S
+    O)), (TSeq (TU (S (S (S (S (S (S (S (S O)))))))))))) :: ((TU (S (S (S (S
+    (S (S (S (S O))))))))) :: [])))))) :: ((TSeq (TU (S (S (S (S (S (S (S (S
+    O)))))))))) :: (TUnit :: []))))))))
+
+(** val schema_56 : ty **)
+
+let schema_56 =
+  TTuple ((TU (S (S (S (S (S (S (S (S O))))))))) :: ((TU (S (S (S (S (S (S (S
+    (S O))))))))) :: ((TOpt (TU (S (S (S (S O)))))) :: ((TOpt (TSeq (TTuple
+    ((TU (S (S (S (S O))))) :: ((TU (S (S (S (S O))))) :: []))))) :: ((TOpt
+    (TSeq (TSeq (TTuple ((TU (S (S (S (S O))))) :: ((TU (S (S (S (S
+    O))))) :: [])))))) :: ((TSeq (TTuple ((TTuple ((TSeq (TTuple ((TArr ((S
+    (S (S (S (S (S (S (S O)))))))), (TU (S (S (S (S (S (S (S (S
+    O))))))))))) :: []))) :: ((TU (S (S (S (S (S (S (S (S O))))))))) :: ((TU
+    (S (S (S (S (S (S (S (S O))))))))) :: [])))) :: ((TSeq (TU (S (S (S (S (S
+    (S (S (S (S (S (S (S (S (S (S (S O)))))))))))))))))) :: ((TArr ((S (S
+    O)), (TSeq (TU (S (S (S (S (S (S (S (S O)))))))))))) :: ((TU (S (S (S (S
+    (S (S (S (S O))))))))) :: [])))))) :: ((TSeq (TU (S (S (S (S (S (S (S (S
+    O)))))))))) :: (TUnit :: []))))))))
+
+(** val schema_57 : ty **)
+
+let schema_57 =
+  TTuple ((TU (S (S (S (S (S (S (S (S O))))))))) :: ((TU (S (S (S (S (S (S (S
+    (S O))))))))) :: ((TOpt (TU (S (S (S (S (S (S (S (S O)))))))))) :: ((TOpt
+    (TSeq (TTuple ((TU (S (S (S (S O))))) :: ((TU (S (S (S (S
+    O))))) :: []))))) :: ((TOpt (TSeq (TSeq (TTuple ((TU (S (S (S (S
+    O))))) :: ((TU (S (S (S (S (S (S (S (S O))))))))) :: [])))))) :: ((TSeq
+    (TTuple ((TTuple ((TSeq (TTuple ((TArr ((S (S (S (S (S (S (S (S
+    O)))))))), (TU (S (S (S (S (S (S (S (S O))))))))))) :: []))) :: ((TU (S
+    (S (S (S (S (S (S (S O))))))))) :: ((TU (S (S (S (S (S (S (S (S
+    O))))))))) :: [])))) :: ((TSeq (TU (S (S (S (S (S (S (S (S (S (S (S (S (S
+    (S (S (S O)))))))))))))))))) :: ((TArr ((S (S O)), (TSeq (TU (S (S (S (S
+    (S (S (S (S O)))))))))))) :: ((TU (S (S (S (S (S (S (S (S
+    O))))))))) :: [])))))) :: ((TSeq (TU (S (S (S (S (S (S (S (S
+    O)))))))))) :: (TUnit :: []))))))))
+
+(** val schema_58 : ty **)
+
+let schema_58 =
+  TTuple ((TU (S (S (S (S (S (S (S (S O))))))))) :: ((TU (S (S (S (S (S (S (S
+    (S O))))))))) :: ((TOpt (TU (S (S (S (S (S (S (S (S O)))))))))) :: ((TOpt
+    (TSeq (TTuple ((TU (S (S (S (S O))))) :: ((TU (S (S (S (S
+    O))))) :: []))))) :: ((TOpt (TSeq (TSeq (TTuple ((TU (S (S (S (S
+    O))))) :: ((TU (S (S (S (S (S (S (S (S O))))))))) :: [])))))) :: ((TSeq
+    (TTuple ((TTuple ((TSeq (TTuple ((TArr ((S (S (S (S (S (S (S (S
+    O)))))))), (TU (S (S (S (S (S (S (S (S O))))))))))) :: []))) :: ((TU (S
+    (S (S (S (S (S (S (S O))))))))) :: ((TU (S (S (S (S (S (S (S (S
+    O))))))))) :: [])))) :: ((TSeq (TU (S (S (S (S (S (S (S (S (S (S (S (S (S
+    (S (S (S O)))))))))))))))))) :: ((TArr ((S (S O)), (TSeq (TU (S (S (S (S
+    (S (S (S (S O)))))))))))) :: ((TU (S (S (S (S (S (S (S (S
+    O))))))))) :: [])))))) :: ((TSeq (TU (S (S (S (S (S (S (S (S
+    O)))))))))) :: (TUnit :: []))))))))
+
+(** val schema_59 : ty **)
+
+let schema_59 =
+  TTuple ((TU (S (S (S (S (S (S (S (S O))))))))) :: ((TU (S (S (S (S (S (S (S
+    (S O))))))))) :: ((TOpt (TU (S (S (S (S (S (S (S (S (S (S (S (S (S (S (S
+    (S O)))))))))))))))))) :: ((TOpt (TSeq (TTuple ((TU (S (S (S (S
+    O))))) :: ((TU (S (S (S (S O))))) :: []))))) :: ((TOpt (TSeq (TSeq
+    (TTuple ((TU (S (S (S (S O))))) :: ((TU (S (S (S (S (S (S (S (S (S (S (S
+    (S (S (S (S (S O))))))))))))))))) :: [])))))) :: ((TSeq (TTuple ((TTuple
+    ((TSeq (TTuple ((TArr ((S (S (S (S (S (S (S (S O)))))))), (TU (S (S (S (S
+    (S (S (S (S O))))))))))) :: []))) :: ((TU (S (S (S (S (S (S (S (S
+    O))))))))) :: ((TU (S (S (S (S (S (S (S (S O))))))))) :: [])))) :: ((TSeq
+    (TU (S (S (S (S (S (S (S (S (S (S (S (S (S (S (S (S
+    O)))))))))))))))))) :: ((TArr ((S (S O)), (TSeq (TU (S (S (S (S (S (S (S
+    (S O)))))))))))) :: ((TU (S (S (S (S (S (S (S (S
+    O))))))))) :: [])))))) :: ((TSeq (TU (S (S (S (S (S (S (S (S
+    O)))))))))) :: (TUnit :: []))))))))
+
+(** val schema_60 : ty **)
+
+let schema_60 =
+  TTuple ((TTuple ((TSeq (TTuple ((TArr ((S (S (S (S O)))), (TU (S (S (S (S
+    (S (S (S (S (S (S (S (S (S (S (S (S O))))))))))))))))))) :: []))) :: ((TU
+    (S (S (S (S (S (S (S (S O))))))))) :: []))) :: ((TTuple ((TSeq (TTuple
+    ((TArr ((S (S (S (S O)))), (TU (S (S (S (S (S (S (S (S (S (S (S (S (S (S
+    (S (S O))))))))))))))))))) :: []))) :: ((TArr ((S (S (S (S O)))), (TSeq
+    (TU (S (S (S (S O)))))))) :: []))) :: ((TArr ((S (S (S (S (S O))))), (TU
+    (S (S (S (S (S (S (S (S O))))))))))) :: [])))
+
+(** val schema_61 : ty **)
+
+let schema_61 =
+  TTuple ((TTuple ((TSeq (TTuple ((TArr ((S (S (S (S O)))), (TU (S (S (S (S
+    (S (S (S (S (S (S (S (S (S (S (S (S O))))))))))))))))))) :: []))) :: ((TU
+    (S (S (S (S (S (S (S (S O))))))))) :: []))) :: ((TTuple ((TSeq (TTuple
+    ((TArr ((S (S (S (S O)))), (TU (S (S (S (S (S (S (S (S (S (S (S (S (S (S
+    (S (S O))))))))))))))))))) :: []))) :: ((TArr ((S (S (S (S O)))), (TSeq
+    (TU (S (S (S (S O)))))))) :: []))) :: ((TArr ((S (S (S (S (S O))))), (TU
+    (S (S (S (S (S (S (S (S O))))))))))) :: [])))
+
+(** val schema_62 : ty **)
+
+let schema_62 =
+  TTuple ((TSeq (TTuple ((TArr ((S (S (S (S O)))), (TU (S (S (S (S (S (S (S
+    (S (S (S (S (S (S (S (S (S O))))))))))))))))))) :: []))) :: ((TU (S (S (S
+    (S (S (S (S (S O))))))))) :: []))
+
+(** val schema_63 : ty **)
+
+let schema_63 =
+  TTuple ((TSeq (TTuple ((TArr ((S (S (S (S (S (S (S (S O)))))))), (TU (S (S
+    (S (S (S (S (S (S O))))))))))) :: []))) :: ((TU (S (S (S (S (S (S (S (S
+    O))))))))) :: ((TU (S (S (S (S (S (S (S (S O))))))))) :: [])))
+
+(** val schema_64 : ty **)
+
+let schema_64 =
+  TTuple ((TSeq (TTuple ((TArr ((S (S (S (S (S (S (S (S O)))))))), (TU (S (S
+    (S (S (S (S (S (S O))))))))))) :: []))) :: ((TU (S (S (S (S (S (S (S (S
+    O))))))))) :: ((TU (S (S (S (S (S (S (S (S O))))))))) :: [])))
+
+(** val schema_65 : ty **)
+
+let schema_65 =
+  TTuple ((TTuple ((TSeq (TTuple ((TArr ((S (S (S (S (S (S (S (S O)))))))),
+    (TU (S (S (S (S (S (S (S (S O))))))))))) :: []))) :: ((TU (S (S (S (S (S
+    (S (S (S O))))))))) :: ((TU (S (S (S (S (S (S (S (S
+    O))))))))) :: [])))) :: ((TSeq (TU (S (S (S (S (S (S (S (S
+    O)))))))))) :: ((TArr ((S (S O)), (TSeq (TU (S (S (S (S (S (S (S (S
+    O)))))))))))) :: [])))
+
+(** val schema_66 : ty **)
+
+let schema_66 =
+  TTuple ((TTuple ((TSeq (TTuple ((TArr ((S (S (S (S (S (S (S (S O)))))))),
+    (TU (S (S (S (S (S (S (S (S O))))))))))) :: []))) :: ((TU (S (S (S (S (S
+    (S (S (S O))))))))) :: ((TU (S (S (S (S (S (S (S (S
+    O))))))))) :: [])))) :: ((TSeq (TU (S (S (S (S (S (S (S (S (S (S (S (S (S
+    (S (S (S O)))))))))))))))))) :: ((TArr ((S (S O)), (TSeq (TU (S (S (S (S
+    (S (S (S (S O)))))))))))) :: ((TU (S (S (S (S (S (S (S (S
+    O))))))))) :: []))))
+
+(** val schema_67 : ty **)
+
+let schema_67 =
+  TTuple ((TTuple ((TSeq (TTuple ((TArr ((S (S (S (S (S (S (S (S O)))))))),
+    (TU (S (S (S (S (S (S (S (S O))))))))))) :: []))) :: ((TU (S (S (S (S (S
+    (S (S (S O))))))))) :: ((TU (S (S (S (S (S (S (S (S
+    O))))))))) :: [])))) :: ((TTuple ((TU (S (S (S (S (S (S (S (S
+    O))))))))) :: ((TSeq (TU (S (S (S (S (S (S (S (S O)))))))))) :: ((TSeq
+    (TU (S (S O)))) :: ((TSeq (TU (S (S (S (S (S (S (S (S
+    O)))))))))) :: []))))) :: ((TOpt (TTuple ((TU (S (S (S (S (S (S (S (S
+    O))))))))) :: ((TSeq (TU (S (S (S (S (S (S (S (S O)))))))))) :: ((TSeq
+    (TU (S (S O)))) :: ((TSeq (TU (S (S (S (S (S (S (S (S
+    O)))))))))) :: [])))))) :: [])))
+
+(** val schema_68 : ty **)
+
+let schema_68 =
+  TTuple ((TTuple ((TSeq (TTuple ((TArr ((S (S (S (S (S (S (S (S O)))))))),
+    (TU (S (S (S (S (S (S (S (S O))))))))))) :: []))) :: ((TU (S (S (S (S (S
+    (S (S (S O))))))))) :: ((TU (S (S (S (S (S (S (S (S
+    O))))))))) :: [])))) :: ((TTuple ((TU (S (S (S (S (S (S (S (S
+    O))))))))) :: ((TSeq (TU (S (S (S (S (S (S (S (S O)))))))))) :: ((TSeq
+    (TU (S (S O)))) :: ((TSeq (TU (S (S (S (S (S (S (S (S
+    O)))))))))) :: []))))) :: ((TOpt (TTuple ((TU (S (S (S (S (S (S (S (S
+    O))))))))) :: ((TSeq (TU (S (S (S (S (S (S (S (S O)))))))))) :: ((TSeq
+    (TU (S (S O)))) :: ((TSeq (TU (S (S (S (S (S (S (S (S
+    O)))))))))) :: [])))))) :: [])))
+
+(** val all_schemas : (n * ty) list **)
+
+let all_schemas =
+  (N0, schema_0) :: (((Npos XH), schema_1) :: (((Npos (XO XH)),
+    schema_2) :: (((Npos (XI XH)), schema_3) :: (((Npos (XO (XO XH))),
+    schema_4) :: (((Npos (XI (XO XH))), schema_5) :: (((Npos (XO (XI XH))),
+    schema_6) :: (((Npos (XI (XI XH))), schema_7) :: (((Npos (XO (XO (XO
+    XH)))), schema_8) :: (((Npos (XI (XO (XO XH)))), schema_9) :: (((Npos (XO
+    (XI (XO XH)))), schema_10) :: (((Npos (XI (XI (XO XH)))),
+    schema_11) :: (((Npos (XO (XO (XI XH)))), schema_12) :: (((Npos (XI (XO
+    (XI XH)))), schema_13) :: (((Npos (XO (XI (XI XH)))),
+    schema_14) :: (((Npos (XI (XI (XI XH)))), schema_15) :: (((Npos (XO (XO
+    (XO (XO XH))))), schema_16) :: (((Npos (XI (XO (XO (XO XH))))),
+    schema_17) :: (((Npos (XO (XI (XO (XO XH))))), schema_18) :: (((Npos (XI
+    (XI (XO (XO XH))))), schema_19) :: (((Npos (XO (XO (XI (XO XH))))),
+    schema_20) :: (((Npos (XI (XO (XI (XO XH))))), schema_21) :: (((Npos (XO
+    (XI (XI (XO XH))))), schema_22) :: (((Npos (XI (XI (XI (XO XH))))),
+    schema_23) :: (((Npos (XO (XO (XO (XI XH))))), schema_24) :: (((Npos (XI
+    (XO (XO (XI XH))))), schema_25) :: (((Npos (XO (XI (XO (XI XH))))),
+    schema_26) :: (((Npos (XI (XI (XO (XI XH))))), schema_27) :: (((Npos (XO
+    (XO (XI (XI XH))))), schema_28) :: (((Npos (XI (XO (XI (XI XH))))),
+    schema_29) :: (((Npos (XO (XI (XI (XI XH))))), schema_30) :: (((Npos (XI
+    (XI (XI (XI XH))))), schema_31) :: (((Npos (XO (XO (XO (XO (XO XH)))))),
+    schema_32) :: (((Npos (XI (XO (XO (XO (XO XH)))))), schema_33) :: (((Npos
+    (XO (XI (XO (XO (XO XH)))))), schema_34) :: (((Npos (XI (XI (XO (XO (XO
+    XH)))))), schema_35) :: (((Npos (XO (XO (XI (XO (XO XH)))))),
+    schema_36) :: (((Npos (XI (XO (XI (XO (XO XH)))))), schema_37) :: (((Npos
+    (XO (XI (XI (XO (XO XH)))))), schema_38) :: (((Npos (XI (XI (XI (XO (XO
+    XH)))))), schema_39) :: (((Npos (XO (XO (XO (XI (XO XH)))))),
+    schema_40) :: (((Npos (XI (XO (XO (XI (XO XH)))))), schema_41) :: (((Npos
+    (XO (XI (XO (XI (XO XH)))))), schema_42) :: (((Npos (XI (XI (XO (XI (XO
+    XH)))))), schema_43) :: (((Npos (XO (XO (XI (XI (XO XH)))))),
+    schema_44) :: (((Npos (XI (XO (XI (XI (XO XH)))))), schema_45) :: (((Npos
+    (XO (XI (XI (XI (XO XH)))))), schema_46) :: (((Npos (XI (XI (XI (XI (XO
+    XH)))))), schema_47) :: (((Npos (XO (XO (XO (XO (XI XH)))))),
+    schema_48) :: (((Npos (XI (XO (XO (XO (XI XH)))))), schema_49) :: (((Npos
+    (XO (XI (XO (XO (XI XH)))))), schema_50) :: (((Npos (XI (XI (XO (XO (XI
+    XH)))))), schema_51) :: (((Npos (XO (XO (XI (XO (XI XH)))))),
+    schema_52) :: (((Npos (XI (XO (XI (XO (XI XH)))))), schema_53) :: (((Npos
+    (XO (XI (XI (XO (XI XH)))))), schema_54) :: (((Npos (XI (XI (XI (XO (XI
+    XH)))))), schema_55) :: (((Npos (XO (XO (XO (XI (XI XH)))))),
+    schema_56) :: (((Npos (XI (XO (XO (XI (XI XH)))))), schema_57) :: (((Npos
+    (XO (XI (XO (XI (XI XH)))))), schema_58) :: (((Npos (XI (XI (XO (XI (XI
+    XH)))))), schema_59) :: (((Npos (XO (XO (XI (XI (XI XH)))))),
+    schema_60) :: (((Npos (XI (XO (XI (XI (XI XH)))))), schema_61) :: (((Npos
+    (XO (XI (XI (XI (XI XH)))))), schema_62) :: (((Npos (XI (XI (XI (XI (XI
+    XH)))))), schema_63) :: (((Npos (XO (XO (XO (XO (XO (XO XH))))))),
+    schema_64) :: (((Npos (XI (XO (XO (XO (XO (XO XH))))))),
+    schema_65) :: (((Npos (XO (XI (XO (XO (XO (XO XH))))))),
+    schema_66) :: (((Npos (XI (XI (XO (XO (XO (XO XH))))))),
+    schema_67) :: (((Npos (XO (XO (XI (XO (XO (XO XH))))))),
+    schema_68) :: []))))))))))))))))))))))))))))))))))))))))))))))))))))))))))))))))))))
